@@ -1,1 +1,2384 @@
-(* placeholder *)
+(* BufferInv.v — invariants of the file-buffering layer (Model/Buffer.v): C15, C07, C17 (buffered part).
+   Part 1: association lists, frames, flush_one case analysis, accounting (acct / acctb).
+   Part 2: registration invariant (reg_inv), what a forced flush achieves.
+   Part 3: capacity / stack tracking, the size bound, read-only sessions, issues of a flush.
+   Part 4: registered collections are known objects.
+   Part 5: the stated theorems.
+
+   Statements that were FALSE as first given carry a (* CHANGED *) comment, preceded by a
+   vm_compute counterexample of the original statement:
+     step_reg            needs distinct buffer keys, and BNew must not reuse a registered id
+     capacity_restored   needs every set_buffer_capacity to be inside a context that carries a capacity
+     readonly_step_pure / readonly_run_pure   need distinct buffer keys *)
+From Coq Require Import List ZArith NArith Bool Lia.
+From SC Require Import Model.Val Model.Plain Model.Ops Model.Buffer Proofs.TreeDefs Proofs.TreeBase Proofs.BufferDefs.
+From SC Require Import Corr.KBuf.
+Import ListNotations.
+Local Open Scope Z_scope.
+
+(* ################################################################## *)
+(* Part 1 *)
+(* ------------------------------------------------------------------ *)
+(* association lists keyed by nat *)
+Section NList.
+  Context {A : Type}.
+  Implicit Types (l : list (nat * A)).
+
+  Lemma nlookup_nset k k' v l :
+    nlookup k' (nset k v l) = if Nat.eqb k' k then Some v else nlookup k' l.
+  Proof.
+    induction l as [|[k0 v0] l IH]; simpl.
+    - reflexivity.
+    - destruct (Nat.eqb k k0) eqn:E; simpl.
+      + apply Nat.eqb_eq in E; subst k0. destruct (Nat.eqb k' k); reflexivity.
+      + rewrite IH. destruct (Nat.eqb k' k0) eqn:E2; [|reflexivity].
+        apply Nat.eqb_eq in E2; subst k0.
+        destruct (Nat.eqb k' k) eqn:E3; [|reflexivity].
+        apply Nat.eqb_eq in E3; subst. rewrite Nat.eqb_refl in E. discriminate.
+  Qed.
+
+  Lemma nlookup_nset_same k v l : nlookup k (nset k v l) = Some v.
+  Proof. rewrite nlookup_nset, Nat.eqb_refl. reflexivity. Qed.
+
+  Lemma nlookup_nset_other k k' v l : k' <> k -> nlookup k' (nset k v l) = nlookup k' l.
+  Proof. intros H. rewrite nlookup_nset. apply Nat.eqb_neq in H. rewrite H. reflexivity. Qed.
+
+  Lemma nlookup_none_iff k l : nlookup k l = None <-> ~ In k (map fst l).
+  Proof.
+    induction l as [|[k0 v0] l IH]; simpl.
+    - split; [intros _ []|reflexivity].
+    - destruct (Nat.eqb k k0) eqn:E.
+      + apply Nat.eqb_eq in E. subst. split; [discriminate|]. intros H. exfalso. apply H. left; reflexivity.
+      + apply Nat.eqb_neq in E. rewrite IH. split.
+        * intros H [H1|H1]; [congruence|contradiction].
+        * intros H H1. apply H. right. exact H1.
+  Qed.
+
+  Lemma nlookup_In k v l : nlookup k l = Some v -> In (k, v) l.
+  Proof.
+    induction l as [|[k0 v0] l IH]; simpl; [discriminate|].
+    destruct (Nat.eqb k k0) eqn:E.
+    - apply Nat.eqb_eq in E. subst. intros H; inversion H; subst. left; reflexivity.
+    - intros H. right. apply IH. exact H.
+  Qed.
+
+  Lemma nlookup_In_keys k v l : nlookup k l = Some v -> In k (map fst l).
+  Proof. intros H. apply nlookup_In in H. apply (in_map fst) in H. exact H. Qed.
+
+  Lemma In_nlookup k v l : NoDup (map fst l) -> In (k, v) l -> nlookup k l = Some v.
+  Proof.
+    induction l as [|[k0 v0] l IH]; simpl; [intros _ []|].
+    intros ND [H|H].
+    - inversion H; subst. rewrite Nat.eqb_refl. reflexivity.
+    - inversion ND as [|x xs Hn ND']; subst.
+      destruct (Nat.eqb k k0) eqn:E.
+      + apply Nat.eqb_eq in E. subst. exfalso. apply Hn. apply (in_map fst) in H. exact H.
+      + apply IH; assumption.
+  Qed.
+
+  Lemma In_keys_nremove x k l : In x (map fst (nremove k l)) -> In x (map fst l).
+  Proof.
+    induction l as [|[k0 v0] l IH]; simpl; [intros []|].
+    destruct (Nat.eqb k k0); simpl.
+    - intros H; right; exact H.
+    - intros [H|H]; [left; exact H|right; apply IH; exact H].
+  Qed.
+
+  Lemma NoDup_nremove k l : NoDup (map fst l) -> NoDup (map fst (nremove k l)).
+  Proof.
+    induction l as [|[k0 v0] l IH]; simpl; [intros H; exact H|].
+    intros ND. inversion ND as [|x xs Hn ND']; subst.
+    destruct (Nat.eqb k k0); simpl; [exact ND'|].
+    constructor; [|apply IH; exact ND'].
+    intros H. apply Hn. eapply In_keys_nremove. exact H.
+  Qed.
+
+  Lemma nlookup_nremove_ne k k' l : k' <> k -> nlookup k' (nremove k l) = nlookup k' l.
+  Proof.
+    intros Hne. induction l as [|[k0 v0] l IH]; simpl; [reflexivity|].
+    destruct (Nat.eqb k k0) eqn:E; simpl.
+    - apply Nat.eqb_eq in E. subst k0. apply Nat.eqb_neq in Hne. rewrite Hne. reflexivity.
+    - rewrite IH. reflexivity.
+  Qed.
+
+  Lemma nlookup_nremove_eq k l : NoDup (map fst l) -> nlookup k (nremove k l) = None.
+  Proof.
+    induction l as [|[k0 v0] l IH]; simpl; [reflexivity|].
+    intros ND. inversion ND as [|x xs Hn ND']; subst.
+    destruct (Nat.eqb k k0) eqn:E; simpl.
+    - apply Nat.eqb_eq in E. subst k0. apply nlookup_none_iff. exact Hn.
+    - rewrite E. apply IH. exact ND'.
+  Qed.
+
+  Lemma nlookup_nremove_none k k' l : nlookup k' l = None -> nlookup k' (nremove k l) = None.
+  Proof.
+    rewrite !nlookup_none_iff. intros H H1. apply H. eapply In_keys_nremove. exact H1.
+  Qed.
+
+  Lemma nlookup_nremove_some k k' l v : NoDup (map fst l) ->
+    nlookup k' (nremove k l) = Some v -> k' <> k /\ nlookup k' l = Some v.
+  Proof.
+    intros ND H. destruct (Nat.eq_dec k' k) as [->|Hne].
+    - rewrite nlookup_nremove_eq in H by exact ND. discriminate.
+    - split; [exact Hne|]. rewrite nlookup_nremove_ne in H by exact Hne. exact H.
+  Qed.
+
+  Lemma keys_nset_in k v l : In k (map fst l) -> map fst (nset k v l) = map fst l.
+  Proof.
+    induction l as [|[k0 v0] l IH]; simpl; [intros []|].
+    destruct (Nat.eqb k k0) eqn:E; simpl.
+    - apply Nat.eqb_eq in E. subst. reflexivity.
+    - apply Nat.eqb_neq in E. intros [H|H]; [congruence|]. rewrite IH by exact H. reflexivity.
+  Qed.
+
+  Lemma keys_nset_notin k v l : ~ In k (map fst l) -> map fst (nset k v l) = map fst l ++ [k].
+  Proof.
+    induction l as [|[k0 v0] l IH]; simpl; [reflexivity|].
+    intros H. destruct (Nat.eqb k k0) eqn:E; simpl.
+    - apply Nat.eqb_eq in E. subst. exfalso. apply H. left; reflexivity.
+    - rewrite IH; [reflexivity|]. intros H1. apply H. right. exact H1.
+  Qed.
+
+  Lemma NoDup_snoc (B : Type) (x : B) (m : list B) : NoDup m -> ~ In x m -> NoDup (m ++ [x]).
+  Proof.
+    induction m as [|y m IH]; simpl; intros ND Hn.
+    - constructor; [intros []|constructor].
+    - inversion ND as [|z zs Hy ND']; subst. constructor.
+      + rewrite in_app_iff. intros [H|[H|[]]]; [contradiction|]. subst. apply Hn. left; reflexivity.
+      + apply IH; [exact ND'|]. intros H. apply Hn. right. exact H.
+  Qed.
+
+  Lemma NoDup_nset k v l : NoDup (map fst l) -> NoDup (map fst (nset k v l)).
+  Proof.
+    intros ND. destruct (in_dec Nat.eq_dec k (map fst l)) as [H|H].
+    - rewrite keys_nset_in by exact H. exact ND.
+    - rewrite keys_nset_notin by exact H. apply NoDup_snoc; assumption.
+  Qed.
+
+  (* weighted sums *)
+  Variable w : A -> Z.
+  Definition wsum l : Z := fold_right (fun (fe : nat * A) acc => w (snd fe) + acc) 0 l.
+  Definition wof (o : option A) : Z := match o with Some a => w a | None => 0 end.
+
+  Lemma wsum_nset k v l : wsum (nset k v l) = wsum l - wof (nlookup k l) + w v.
+  Proof.
+    unfold wsum, wof. induction l as [|[k0 v0] l IH]; simpl.
+    - lia.
+    - destruct (Nat.eqb k k0) eqn:E; simpl.
+      + lia.
+      + rewrite IH. lia.
+  Qed.
+
+  Lemma wsum_nremove k l : wsum (nremove k l) = wsum l - wof (nlookup k l).
+  Proof.
+    unfold wsum, wof. induction l as [|[k0 v0] l IH]; simpl.
+    - lia.
+    - destruct (Nat.eqb k k0) eqn:E; simpl.
+      + lia.
+      + rewrite IH. lia.
+  Qed.
+
+  Lemma wsum_zero l : (forall k a, In (k, a) l -> w a = 0) -> wsum l = 0.
+  Proof.
+    unfold wsum. induction l as [|[k0 v0] l IH]; simpl; [reflexivity|].
+    intros H. rewrite IH.
+    - rewrite (H k0 v0) by (left; reflexivity). reflexivity.
+    - intros k a Hin. apply (H k a). right. exact Hin.
+  Qed.
+End NList.
+
+Lemma nmem_In k l : nmem k l = true <-> In k l.
+Proof.
+  unfold nmem. rewrite existsb_exists. split.
+  - intros [x [Hin E]]. apply Nat.eqb_eq in E. subst. exact Hin.
+  - intros H. exists k. split; [exact H|apply Nat.eqb_refl].
+Qed.
+
+Lemma nmem_false k l : nmem k l = false <-> ~ In k l.
+Proof.
+  rewrite <- nmem_In. destruct (nmem k l); split; congruence.
+Qed.
+
+(* ------------------------------------------------------------------ *)
+(* simplification of record projections over the update functions *)
+Ltac bsimpl :=
+  cbn [fst snd b_files b_clock b_writes b_heap b_nloc b_objs b_buffer b_size b_cap b_stack b_ctx b_bcs b_forced
+       upd_files upd_heap upd_objs upd_buffer upd_size upd_cap upd_stack upd_ctx upd_bcs
+       write_disk write_disk_raw set_data set_loc set_buf update_root set_entry del_entry note_forced].
+Tactic Notation "bsimpl" "in" hyp(H) :=
+  cbn [fst snd b_files b_clock b_writes b_heap b_nloc b_objs b_buffer b_size b_cap b_stack b_ctx b_bcs b_forced
+       upd_files upd_heap upd_objs upd_buffer upd_size upd_cap upd_stack upd_ctx upd_bcs
+       write_disk write_disk_raw set_data set_loc set_buf update_root set_entry del_entry note_forced] in H.
+
+(* ------------------------------------------------------------------ *)
+(* objects *)
+Lemma get_obj_eq s s' o : b_objs s' = b_objs s -> get_obj s' o = get_obj s o.
+Proof. intros H. unfold get_obj. rewrite H. reflexivity. Qed.
+
+Lemma get_obj_nset s s' oid ob o :
+  b_objs s' = nset oid ob (b_objs s) -> get_obj s' o = if Nat.eqb o oid then ob else get_obj s o.
+Proof.
+  intros H. unfold get_obj. rewrite H, nlookup_nset. destruct (Nat.eqb o oid); reflexivity.
+Qed.
+
+(* the control part of the state: what is_buffered, the stack and the capacity depend on *)
+Definition frame (s s' : bstate) : Prop :=
+  b_ctx s' = b_ctx s /\ b_stack s' = b_stack s /\ b_cap s' = b_cap s /\
+  (forall o, bo_file (get_obj s' o) = bo_file (get_obj s o)) /\
+  (forall o, bo_buf (get_obj s' o) = bo_buf (get_obj s o)).
+
+Lemma frame_refl s : frame s s.
+Proof. repeat split. Qed.
+
+Lemma frame_trans s1 s2 s3 : frame s1 s2 -> frame s2 s3 -> frame s1 s3.
+Proof.
+  intros (A1 & A2 & A3 & A4 & A5) (B1 & B2 & B3 & B4 & B5).
+  split; [congruence|]. split; [congruence|]. split; [congruence|]. split; intros o.
+  - rewrite B4. apply A4.
+  - rewrite B5. apply A5.
+Qed.
+
+Lemma frame_objs_eq s s' :
+  b_objs s' = b_objs s -> b_ctx s' = b_ctx s -> b_stack s' = b_stack s -> b_cap s' = b_cap s -> frame s s'.
+Proof.
+  intros H1 H2 H3 H4. repeat split; try assumption; intros o; rewrite (get_obj_eq s s' o H1); reflexivity.
+Qed.
+
+Lemma frame_set_loc s oid loc : frame s (set_loc s oid loc).
+Proof.
+  repeat split; intros o; rewrite (get_obj_nset s (set_loc s oid loc) oid _ o eq_refl);
+    destruct (Nat.eqb o oid) eqn:E; try reflexivity; apply Nat.eqb_eq in E; subst; reflexivity.
+Qed.
+
+Lemma frame_is_buffered s s' o : frame s s' -> is_buffered s' o = is_buffered s o.
+Proof. intros (A1 & _ & _ & _ & A5). unfold is_buffered. rewrite A1, A5. reflexivity. Qed.
+
+Lemma frame_file s s' o : frame s s' -> bo_file (get_obj s' o) = bo_file (get_obj s o).
+Proof. intros (_ & _ & _ & A4 & _). apply A4. Qed.
+
+Lemma frame_cap s s' : frame s s' -> b_cap s' = b_cap s.
+Proof. intros (_ & _ & A3 & _). exact A3. Qed.
+Lemma frame_stack s s' : frame s s' -> b_stack s' = b_stack s.
+Proof. intros (_ & A2 & _). exact A2. Qed.
+Lemma frame_ctx s s' : frame s s' -> b_ctx s' = b_ctx s.
+Proof. intros (A1 & _). exact A1. Qed.
+
+Lemma register_fields s oid :
+  b_objs (register s oid) = b_objs s /\ b_ctx (register s oid) = b_ctx s /\ b_stack (register s oid) = b_stack s
+  /\ b_cap (register s oid) = b_cap s /\ b_buffer (register s oid) = b_buffer s /\ b_size (register s oid) = b_size s
+  /\ b_files (register s oid) = b_files s /\ b_writes (register s oid) = b_writes s /\ b_heap (register s oid) = b_heap s.
+Proof. unfold register. destruct (nmem oid (b_bcs s)); repeat split. Qed.
+
+Lemma register_bcs s oid o : In o (b_bcs (register s oid)) <-> o = oid \/ In o (b_bcs s).
+Proof.
+  unfold register. destruct (nmem oid (b_bcs s)) eqn:E.
+  - apply nmem_In in E. split; [intros H; right; exact H|]. intros [->|H]; assumption.
+  - bsimpl. rewrite in_app_iff. simpl. split.
+    + intros [H|[H|[]]]; [right; exact H|left; symmetry; exact H].
+    + intros [->|H]; [right; left; reflexivity|left; exact H].
+Qed.
+
+Lemma frame_register s oid : frame s (register s oid).
+Proof.
+  destruct (register_fields s oid) as (H1 & H2 & H3 & H4 & _). apply frame_objs_eq; assumption.
+Qed.
+
+Lemma get_obj_register s oid o : get_obj (register s oid) o = get_obj s o.
+Proof. apply get_obj_eq. apply register_fields. Qed.
+
+(* ------------------------------------------------------------------ *)
+(* flush_one: case analysis *)
+Ltac fo_cases strat s oid force :=
+  unfold flush_one;
+  destruct (negb (is_buffered s oid) || force) eqn:Hcond;
+  [ let e := fresh "e" in
+    destruct (nlookup (bo_file (get_obj s oid)) (b_buffer s)) as [e|] eqn:Hlk;
+    [ destruct strat;
+      [ destruct (veq_text (e_val e) (e_hash e)) eqn:Hveq;
+        [| destruct (negb (opt_nat_eqb (e_meta e) (stamp s (bo_file (get_obj s oid))))) eqn:Hmeta ]
+      | destruct (e_mod e) eqn:Hmod;
+        [ destruct (negb (opt_nat_eqb (e_meta e) (stamp s (bo_file (get_obj s oid))))) eqn:Hmeta |];
+        destruct force eqn:Hforce ]
+    | destruct strat; [| destruct force eqn:Hforce ] ]
+  | destruct strat ].
+
+Lemma flush_one_frame strat blen s oid force :
+  let s' := fst (flush_one strat blen s oid force) in
+  frame s s' /\ b_bcs s' = b_bcs s /\ b_forced s' = b_forced s.
+Proof.
+  fo_cases strat s oid force; bsimpl; (split; [|split; reflexivity]);
+    try (apply frame_objs_eq; reflexivity);
+    try (eapply frame_trans; [apply frame_set_loc|apply frame_objs_eq; reflexivity]).
+Qed.
+
+Lemma flush_one_is_buffered strat blen s oid force o :
+  is_buffered (fst (flush_one strat blen s oid force)) o = is_buffered s o.
+Proof. apply frame_is_buffered. apply flush_one_frame. Qed.
+
+Lemma flush_one_file strat blen s oid force o :
+  bo_file (get_obj (fst (flush_one strat blen s oid force)) o) = bo_file (get_obj s o).
+Proof. apply frame_file. apply flush_one_frame. Qed.
+
+(* ------------------------------------------------------------------ *)
+(* accounting *)
+Definition ew (strat : strategy) (blen : val -> Z) (e : entry) : Z :=
+  match strat with Ser => blen (e_val e) | Shm => if e_mod e then 1 else 0 end.
+
+Lemma expected_size_wsum strat blen s : expected_size strat blen s = wsum (ew strat blen) (b_buffer s).
+Proof. destruct strat; reflexivity. Qed.
+
+(* [acctb true] is acct; [acctb false] is just the absence of duplicate keys *)
+Definition acctb (b : bool) (strat : strategy) (blen : val -> Z) (s : bstate) : Prop :=
+  (b = true -> b_size s = wsum (ew strat blen) (b_buffer s)) /\ NoDup (map fst (b_buffer s)).
+
+Lemma acctb_true strat blen s : acctb true strat blen s <-> acct strat blen s.
+Proof.
+  unfold acctb, acct. rewrite expected_size_wsum. split; intros [H1 H2]; split; auto.
+Qed.
+Lemma acctb_false strat blen s : acctb false strat blen s <-> NoDup (map fst (b_buffer s)).
+Proof. unfold acctb. split; [intros [_ H]; exact H|intros H; split; [discriminate|exact H]]. Qed.
+Lemma acctb_nodup b strat blen s : acctb b strat blen s -> NoDup (map fst (b_buffer s)).
+Proof. intros [_ H]. exact H. Qed.
+
+Lemma acct_nodup strat blen s : acct strat blen s -> NoDup (map fst (b_buffer s)).
+Proof. intros [_ H]. exact H. Qed.
+
+Lemma acct_same b strat blen s s' :
+  b_buffer s' = b_buffer s -> b_size s' = b_size s -> acctb b strat blen s -> acctb b strat blen s'.
+Proof. unfold acctb. intros -> ->. intros H; exact H. Qed.
+
+Lemma acct_del b strat blen s s' f e :
+  acctb b strat blen s -> nlookup f (b_buffer s) = Some e ->
+  b_buffer s' = nremove f (b_buffer s) -> b_size s' = b_size s - ew strat blen e -> acctb b strat blen s'.
+Proof.
+  unfold acctb. intros [H1 H2] Hl -> ->. split.
+  - intros Hb. rewrite wsum_nremove, Hl, (H1 Hb). simpl. lia.
+  - apply NoDup_nremove. exact H2.
+Qed.
+
+Lemma acct_set b strat blen s s' f e' :
+  acctb b strat blen s -> b_buffer s' = nset f e' (b_buffer s) ->
+  b_size s' = b_size s - wof (ew strat blen) (nlookup f (b_buffer s)) + ew strat blen e' -> acctb b strat blen s'.
+Proof.
+  unfold acctb. intros [H1 H2] -> ->. split.
+  - intros Hb. rewrite wsum_nset, (H1 Hb). lia.
+  - apply NoDup_nset. exact H2.
+Qed.
+
+Lemma flush_one_acct b strat blen s oid force :
+  acctb b strat blen s -> acctb b strat blen (fst (flush_one strat blen s oid force)).
+Proof.
+  intros HA.
+  fo_cases strat s oid force; bsimpl;
+    try (eapply acct_same; [| |exact HA]; reflexivity);
+    try (eapply acct_del; [exact HA|exact Hlk|reflexivity|]; bsimpl; cbn [ew]; try rewrite Hmod; try reflexivity; lia);
+    try (eapply acct_set; [exact HA|reflexivity|]; bsimpl; rewrite Hlk; cbn [ew wof e_mod]; try rewrite Hmod; lia).
+Qed.
+
+(* generic lifting through flush_loop / flush_buffer / check_capacity / set_capacity *)
+Lemma flush_loop_pres strat blen (P : bstate -> Prop) force :
+  (forall s oid, P s -> P (fst (flush_one strat blen s oid force))) ->
+  forall todo s rem iss, P s -> P (fst (fst (flush_loop strat blen todo s force rem iss))).
+Proof.
+  intros HP. induction todo as [|oid todo IH]; intros s rem iss Hs; simpl.
+  - exact Hs.
+  - destruct (is_buffered s oid && negb force).
+    + apply IH. exact Hs.
+    + specialize (HP s oid Hs).
+      destruct (flush_one strat blen s oid force) as [s1 [[f|fs]|]]; apply IH; exact HP.
+Qed.
+
+Definition closed_ctl (P : bstate -> Prop) : Prop :=
+  (forall s l, P s -> P (upd_bcs s l)) /\ (forall s, P s -> P (note_forced s)) /\ (forall s n, P s -> P (upd_cap s n)).
+
+Lemma flush_buffer_fst strat blen s force :
+  fst (flush_buffer strat blen s force) =
+  upd_bcs (fst (fst (flush_loop strat blen (rev (b_bcs s)) (upd_bcs s []) force [] [])))
+          (snd (fst (flush_loop strat blen (rev (b_bcs s)) (upd_bcs s []) force [] []))).
+Proof.
+  unfold flush_buffer. destruct (flush_loop strat blen (rev (b_bcs s)) (upd_bcs s []) force [] []) as [[s1 rem] iss].
+  destruct iss; reflexivity.
+Qed.
+
+Lemma flush_buffer_pres strat blen (P : bstate -> Prop) force :
+  closed_ctl P ->
+  (forall s oid, P s -> P (fst (flush_one strat blen s oid force))) ->
+  forall s, P s -> P (fst (flush_buffer strat blen s force)).
+Proof.
+  intros (C1 & _) HP s Hs. rewrite flush_buffer_fst. apply C1. apply flush_loop_pres; [exact HP|]. apply C1. exact Hs.
+Qed.
+
+Lemma check_capacity_pres strat blen (P : bstate -> Prop) :
+  closed_ctl P ->
+  (forall s oid, P s -> P (fst (flush_one strat blen s oid true))) ->
+  forall s, P s -> P (fst (check_capacity strat blen s)).
+Proof.
+  intros C HP s Hs. unfold check_capacity. destruct (b_cap s <? b_size s); [|exact Hs].
+  apply flush_buffer_pres; try assumption. apply C. exact Hs.
+Qed.
+
+Lemma set_capacity_pres strat blen (P : bstate -> Prop) :
+  closed_ctl P ->
+  (forall s oid, P s -> P (fst (flush_one strat blen s oid true))) ->
+  forall s n, P s -> P (fst (set_capacity strat blen s n)).
+Proof.
+  intros C HP s n Hs. unfold set_capacity.
+  assert (H1 : P (upd_cap s n)) by (apply C; exact Hs).
+  destruct (n <? b_size (upd_cap s n)); [|exact H1].
+  apply flush_buffer_pres; try assumption. apply C. exact H1.
+Qed.
+
+Lemma acct_closed b strat blen : closed_ctl (acctb b strat blen).
+Proof. split; [|split]; intros; (eapply acct_same; [| |eassumption]; reflexivity). Qed.
+
+(* ------------------------------------------------------------------ *)
+(* states that differ only in heap / allocation pointer *)
+Definition heap_only (s s' : bstate) : Prop :=
+  b_objs s' = b_objs s /\ b_buffer s' = b_buffer s /\ b_size s' = b_size s /\ b_ctx s' = b_ctx s /\
+  b_stack s' = b_stack s /\ b_cap s' = b_cap s /\ b_bcs s' = b_bcs s /\ b_files s' = b_files s /\
+  b_writes s' = b_writes s /\ b_clock s' = b_clock s.
+
+Lemma set_data_heap_only s oid v : heap_only s (set_data s oid v).
+Proof. repeat split. Qed.
+Lemma update_root_heap_only s oid d : heap_only s (update_root s oid d).
+Proof. destruct d; repeat split. Qed.
+
+Lemma heap_only_frame s s' : heap_only s s' -> frame s s'.
+Proof. intros (H1 & _ & _ & H4 & H5 & H6 & _). apply frame_objs_eq; assumption. Qed.
+Lemma heap_only_acct b strat blen s s' : heap_only s s' -> acctb b strat blen s -> acctb b strat blen s'.
+Proof. intros (_ & H2 & H3 & _). apply acct_same; assumption. Qed.
+Lemma heap_only_get_obj s s' o : heap_only s s' -> get_obj s' o = get_obj s o.
+Proof. intros (H1 & _). apply get_obj_eq. exact H1. Qed.
+Lemma heap_only_read_disk s s' f : heap_only s s' -> read_disk s' f = read_disk s f.
+Proof. intros (_ & _ & _ & _ & _ & _ & _ & H & _). unfold read_disk. rewrite H. reflexivity. Qed.
+Lemma heap_only_stamp s s' f : heap_only s s' -> stamp s' f = stamp s f.
+Proof. intros (_ & _ & _ & _ & _ & _ & _ & H & _). unfold stamp. rewrite H. reflexivity. Qed.
+
+(* ------------------------------------------------------------------ *)
+(* the pieces of bstep_fn *)
+Definition stb_pre (strat : strategy) (blen : val -> Z) (s : bstate) (oid : nat) : bstate :=
+  let s0 := register s oid in
+  let o := get_obj s0 oid in
+  let f := bo_file o in
+  match strat, nlookup f (b_buffer s0) with
+  | Ser, Some e =>
+      let d := data_of s0 oid in
+      upd_size (set_entry s0 f {| e_val := d; e_loc := e_loc e; e_hash := e_hash e; e_meta := e_meta e; e_mod := e_mod e |})
+               (b_size s0 + blen d - blen (e_val e))
+  | Ser, None =>
+      let s' := init_entry strat blen s0 oid false in
+      match nlookup f (b_buffer s') with
+      | Some e => set_entry s' f {| e_val := e_val e; e_loc := e_loc e;
+                                    e_hash := match read_disk s' f with Some d => d | None => VS SNull end;
+                                    e_meta := e_meta e; e_mod := e_mod e |}
+      | None => s'
+      end
+  | Shm, Some e =>
+      let s' := if Nat.eqb (e_loc e) (bo_loc o) then s0
+                else set_loc (upd_heap s0 (nset (e_loc e) (data_of s0 oid) (b_heap s0))) oid (e_loc e) in
+      if e_mod e then s'
+      else upd_size (set_entry s' f {| e_val := e_val e; e_loc := e_loc e; e_hash := e_hash e;
+                                       e_meta := e_meta e; e_mod := true |}) (b_size s' + 1)
+  | Shm, None => let s' := init_entry strat blen s0 oid true in upd_size s' (b_size s' + 1)
+  end.
+
+Lemma save_to_buffer_eq strat blen s oid :
+  save_to_buffer strat blen s oid = check_capacity strat blen (stb_pre strat blen s oid).
+Proof. destruct strat; reflexivity. Qed.
+
+Definition load2 (strat : strategy) (blen : val -> Z) (o : nop) (oid : nat) (s0 : bstate) : bstate * option exn :=
+  match o with
+  | OL (LEq _) | OD (DEq _) =>
+      match load strat blen s0 oid with
+      | (s1, Some x) => (s1, Some x)
+      | (s1, None) => load strat blen s1 oid
+      end
+  | _ => load strat blen s0 oid
+  end.
+
+Lemma load2_cases strat blen o oid s :
+  load2 strat blen o oid s = load strat blen s oid
+  \/ (exists x, snd (load strat blen s oid) = Some x /\ load2 strat blen o oid s = load strat blen s oid)
+  \/ (snd (load strat blen s oid) = None /\
+      load2 strat blen o oid s = load strat blen (fst (load strat blen s oid)) oid).
+Proof.
+  assert (D : match load strat blen s oid with (s1, Some x) => (s1, Some x) | (s1, None) => load strat blen s1 oid end
+              = load strat blen s oid
+           \/ (snd (load strat blen s oid) = None /\
+               match load strat blen s oid with (s1, Some x) => (s1, Some x) | (s1, None) => load strat blen s1 oid end
+               = load strat blen (fst (load strat blen s oid)) oid)).
+  { destruct (load strat blen s oid) as [s1 [x|]]; [left; reflexivity|right; split; reflexivity]. }
+  destruct o as [lo|d]; [destruct lo|destruct d]; simpl; try (left; reflexivity);
+    (destruct D as [D|D]; [left; exact D|right; right; exact D]).
+Qed.
+
+Lemma load2_pres strat blen (P : bstate -> Prop) o oid :
+  (forall s, P s -> P (fst (load strat blen s oid))) ->
+  forall s, P s -> P (fst (load2 strat blen o oid s)).
+Proof.
+  intros HP s Hs. destruct (load2_cases strat blen o oid s) as [E|[(x & _ & E)|(_ & E)]]; rewrite E.
+  - apply HP; exact Hs.
+  - apply HP; exact Hs.
+  - apply HP. apply HP. exact Hs.
+Qed.
+
+Definition bop_fst (strat : strategy) (blen : val -> Z) (s : bstate) (oid : nat) (p : path) (o : nop) : bstate :=
+  match pre_err o with
+  | Some _ => s
+  | None =>
+      if (match p with [] => true | _ => false end) && nop_no_load o then
+        match apply_at p o (data_of s oid) with
+        | None => s
+        | Some (Err _, _) => s
+        | Some (Ok _, d') => fst (save strat blen (set_data s oid d') oid)
+        end
+      else
+        let s1 := fst (load2 strat blen o oid s) in
+        match snd (load2 strat blen o oid s) with
+        | Some _ => s1
+        | None =>
+            match apply_at p o (data_of s1 oid) with
+            | None => s1
+            | Some (_, d') => if nop_is_read o then s1 else fst (save strat blen (set_data s1 oid d') oid)
+            end
+        end
+  end.
+
+Definition orig_of (st : list (option Z)) : option Z := match st with o :: _ => o | [] => None end.
+
+Definition exit_s2 (strat : strategy) (blen : val -> Z) (s : bstate) : bstate :=
+  let s1 := upd_ctx s (Nat.pred (b_ctx s)) in
+  if Nat.eqb (b_ctx s1) 0 then fst (flush_buffer strat blen s1 false) else s1.
+
+Definition step_fst (strat : strategy) (blen : val -> Z) (s : bstate) (op : bop) : bstate :=
+  match op with
+  | BNew oid f k =>
+      let loc := b_nloc s in
+      {| b_files := b_files s; b_clock := b_clock s; b_writes := b_writes s;
+         b_heap := nset loc (empty_of k) (b_heap s); b_nloc := S loc;
+         b_objs := nset oid {| bo_file := f; bo_loc := loc; bo_buf := 0; bo_kind := k |} (b_objs s);
+         b_buffer := b_buffer s; b_size := b_size s; b_cap := b_cap s; b_stack := b_stack s;
+         b_ctx := b_ctx s; b_bcs := b_bcs s; b_forced := b_forced s |}
+  | BExt f v => write_disk_raw s f v
+  | BOp oid p o => bop_fst strat blen s oid p o
+  | BEnterObj oid => set_buf s oid (S (bo_buf (get_obj s oid)))
+  | BExitObj oid =>
+      let n := Nat.pred (bo_buf (get_obj s oid)) in
+      let s1 := set_buf s oid n in
+      if Nat.eqb n 0 then fst (flush_one strat blen s1 oid false) else s1
+  | BEnterCls cap =>
+      let s1 := upd_ctx s (S (b_ctx s)) in
+      match cap with
+      | None => upd_stack s1 (None :: b_stack s1)
+      | Some c => fst (set_capacity strat blen (upd_stack s1 (Some (b_cap s1) :: b_stack s1)) c)
+      end
+  | BExitCls =>
+      let s2 := exit_s2 strat blen s in
+      let s3 := upd_stack s2 (tl (b_stack s2)) in
+      match orig_of (b_stack s2) with
+      | Some c => fst (set_capacity strat blen s3 c)
+      | None => s3
+      end
+  | BSetCap n => fst (set_capacity strat blen s n)
+  end.
+
+Lemma bstep_fst strat blen s op : fst (bstep_fn strat blen s op) = step_fst strat blen s op.
+Proof.
+  destruct op as [oid f k|f v|oid p o|oid|oid|cap| |n]; cbn [bstep_fn step_fst].
+  - reflexivity.
+  - reflexivity.
+  - unfold bop_fst. fold (load2 strat blen o oid s).
+    destruct (pre_err o); [reflexivity|].
+    destruct ((match p with [] => true | _ => false end) && nop_no_load o).
+    + destruct (apply_at p o (data_of s oid)) as [[[v|e] d']|]; try reflexivity.
+      destruct (save strat blen (set_data s oid d') oid) as [s2 [x|]]; reflexivity.
+    + destruct (load2 strat blen o oid s) as [s1 [x|]]; cbn [fst snd]; [reflexivity|].
+      destruct (apply_at p o (data_of s1 oid)) as [[r d']|]; [|reflexivity].
+      destruct (nop_is_read o); [reflexivity|].
+      destruct (save strat blen (set_data s1 oid d') oid) as [s2 [x|]]; reflexivity.
+  - reflexivity.
+  - cbv zeta. destruct (Nat.eqb (Nat.pred (bo_buf (get_obj s oid))) 0); [|reflexivity].
+    destruct (flush_one strat blen _ oid false) as [s2 [x|]]; reflexivity.
+  - cbv zeta. destruct cap as [c|]; [|reflexivity].
+    destruct (set_capacity strat blen _ c) as [s3 [x|]]; reflexivity.
+  - unfold exit_s2. cbv zeta.
+    destruct (Nat.eqb (b_ctx (upd_ctx s (Nat.pred (b_ctx s)))) 0).
+    + destruct (flush_buffer strat blen (upd_ctx s (Nat.pred (b_ctx s))) false) as [s2 x1]. cbn [fst].
+      destruct (b_stack s2) as [|[c|] st]; cbn [orig_of tl].
+      * destruct x1; reflexivity.
+      * destruct (set_capacity strat blen _ c) as [s4 [x|]]; destruct x1; reflexivity.
+      * destruct x1; reflexivity.
+    + destruct (b_stack (upd_ctx s (Nat.pred (b_ctx s)))) as [|[c|] st]; cbn [orig_of tl].
+      * reflexivity.
+      * destruct (set_capacity strat blen _ c) as [s4 [x|]]; reflexivity.
+      * reflexivity.
+  - destruct (set_capacity strat blen s n) as [s1 [x|]]; reflexivity.
+Qed.
+
+(* ------------------------------------------------------------------ *)
+(* acct through load / save / step *)
+Lemma init_entry_acct b strat blen s oid m :
+  acctb b strat blen s -> nlookup (bo_file (get_obj s oid)) (b_buffer s) = None ->
+  acctb b strat blen
+    (match strat with
+     | Ser => init_entry strat blen s oid m
+     | Shm => if m then upd_size (init_entry strat blen s oid m) (b_size (init_entry strat blen s oid m) + 1)
+              else init_entry strat blen s oid m
+     end).
+Proof.
+  intros HA Hl. unfold init_entry. destruct strat; [|destruct m]; bsimpl;
+    (eapply acct_set; [exact HA|reflexivity|]; bsimpl; rewrite Hl; cbn [ew wof e_val e_mod]; lia).
+Qed.
+
+Lemma init_entry_buffer strat blen s oid m :
+  exists e, b_buffer (init_entry strat blen s oid m) = nset (bo_file (get_obj s oid)) e (b_buffer s)
+            /\ e_mod e = m /\ e_val e = data_of s oid /\ e_hash e = data_of s oid.
+Proof. unfold init_entry. destruct strat; bsimpl; eexists; (split; [reflexivity|]); repeat split. Qed.
+
+Lemma init_entry_fields strat blen s oid m :
+  let s' := init_entry strat blen s oid m in
+  b_objs s' = b_objs s /\ b_ctx s' = b_ctx s /\ b_stack s' = b_stack s /\ b_cap s' = b_cap s /\ b_bcs s' = b_bcs s
+  /\ b_files s' = b_files s /\ b_writes s' = b_writes s /\ b_heap s' = b_heap s.
+Proof. unfold init_entry. destruct strat; repeat split. Qed.
+
+Lemma lfbb_acct b strat blen s oid :
+  acctb b strat blen s -> acctb b strat blen (load_from_buffer_base strat blen s oid).
+Proof.
+  intros HA. unfold load_from_buffer_base.
+  destruct (nlookup (bo_file (get_obj s oid)) (b_buffer s)) eqn:Hl.
+  - eapply acct_same; [| |exact HA]; apply register_fields.
+  - set (s' := update_root s oid (read_disk s (bo_file (get_obj s oid)))).
+    assert (HO : heap_only s s') by apply update_root_heap_only.
+    assert (HA' : acctb b strat blen s') by (eapply heap_only_acct; eassumption).
+    assert (Hl' : nlookup (bo_file (get_obj s' oid)) (b_buffer s') = None).
+    { rewrite (heap_only_get_obj s s' oid HO). destruct HO as (_ & -> & _). exact Hl. }
+    pose proof (init_entry_acct b strat blen s' oid false HA' Hl') as H.
+    eapply acct_same; [| |]; [apply register_fields|apply register_fields|].
+    destruct strat; exact H.
+Qed.
+
+Lemma check_capacity_acct b strat blen s :
+  acctb b strat blen s -> acctb b strat blen (fst (check_capacity strat blen s)).
+Proof. apply check_capacity_pres; [apply acct_closed|]. intros; apply flush_one_acct; assumption. Qed.
+
+Lemma set_capacity_acct b strat blen s n :
+  acctb b strat blen s -> acctb b strat blen (fst (set_capacity strat blen s n)).
+Proof. apply set_capacity_pres; [apply acct_closed|]. intros; apply flush_one_acct; assumption. Qed.
+
+Lemma flush_buffer_acct b strat blen s force :
+  acctb b strat blen s -> acctb b strat blen (fst (flush_buffer strat blen s force)).
+Proof. apply flush_buffer_pres; [apply acct_closed|]. intros; apply flush_one_acct; assumption. Qed.
+
+Lemma load_acct b strat blen s oid :
+  acctb b strat blen s -> acctb b strat blen (fst (load strat blen s oid)).
+Proof.
+  intros HA. unfold load. destruct (is_buffered s oid).
+  - pose proof (lfbb_acct b strat blen s oid HA) as H1.
+    destruct strat.
+    + pose proof (check_capacity_acct b Ser blen _ H1) as H2.
+      destruct (check_capacity Ser blen (load_from_buffer_base Ser blen s oid)) as [s2 [x|]]; cbn [fst] in *.
+      * exact H2.
+      * eapply heap_only_acct; [apply update_root_heap_only|exact H2].
+    + destruct (nlookup _ _); cbn [fst]; [|exact H1].
+      eapply acct_same; [| |exact H1]; reflexivity.
+  - cbn [fst]. eapply heap_only_acct; [apply update_root_heap_only|exact HA].
+Qed.
+
+Lemma stb_pre_acct b strat blen s oid :
+  acctb b strat blen s -> acctb b strat blen (stb_pre strat blen s oid).
+Proof.
+  intros HA.
+  assert (HA0 : acctb b strat blen (register s oid)) by (eapply acct_same; [| |exact HA]; apply register_fields).
+  unfold stb_pre. set (s0 := register s oid) in *. set (f := bo_file (get_obj s0 oid)).
+  destruct strat; destruct (nlookup f (b_buffer s0)) as [e|] eqn:Hl.
+  - eapply acct_set; [exact HA0|reflexivity|]. bsimpl. rewrite Hl. cbn [ew wof e_val]. lia.
+  - pose proof (init_entry_acct b Ser blen s0 oid false HA0 Hl) as H1. cbv beta iota in H1.
+    destruct (init_entry_buffer Ser blen s0 oid false) as (e0 & Hb & _).
+    fold f in Hb. rewrite Hb, nlookup_nset_same.
+    eapply acct_set; [exact H1|reflexivity|]. bsimpl. rewrite Hb, nlookup_nset_same. cbn [ew wof e_val]. lia.
+  - set (s' := if Nat.eqb (e_loc e) (bo_loc (get_obj s0 oid)) then s0 else _).
+    assert (Hs' : b_buffer s' = b_buffer s0 /\ b_size s' = b_size s0).
+    { subst s'. destruct (Nat.eqb _ _); split; reflexivity. }
+    destruct Hs' as [Hb Hz].
+    assert (HA' : acctb b Shm blen s') by (eapply acct_same; eassumption).
+    destruct (e_mod e) eqn:Hm; [exact HA'|].
+    eapply acct_set; [exact HA'|reflexivity|]. bsimpl. rewrite Hb, Hl. cbn [ew wof e_mod]. rewrite Hm. lia.
+  - exact (init_entry_acct b Shm blen s0 oid true HA0 Hl).
+Qed.
+
+Lemma save_acct b strat blen s oid :
+  acctb b strat blen s -> acctb b strat blen (fst (save strat blen s oid)).
+Proof.
+  intros HA. unfold save. destruct (is_buffered s oid).
+  - rewrite save_to_buffer_eq. apply check_capacity_acct. apply stb_pre_acct. exact HA.
+  - cbn [fst]. eapply acct_same; [| |exact HA]; reflexivity.
+Qed.
+
+Lemma bop_fst_pres strat blen (P : bstate -> Prop) oid :
+  (forall s v, P s -> P (set_data s oid v)) ->
+  (forall s, P s -> P (fst (load strat blen s oid))) ->
+  (forall s, P s -> P (fst (save strat blen s oid))) ->
+  forall s p o, P s -> P (bop_fst strat blen s oid p o).
+Proof.
+  intros H1 H2 H3 s p o Hs. unfold bop_fst.
+  destruct (pre_err o); [exact Hs|].
+  destruct (_ && _).
+  - destruct (apply_at p o (data_of s oid)) as [[[v|e] d']|]; try exact Hs.
+    apply H3. apply H1. exact Hs.
+  - pose proof (load2_pres strat blen P o oid H2 s Hs) as HL.
+    cbv zeta. destruct (snd (load2 strat blen o oid s)); [exact HL|].
+    destruct (apply_at p o _) as [[r d']|]; [|exact HL].
+    destruct (nop_is_read o); [exact HL|]. apply H3. apply H1. exact HL.
+Qed.
+
+Theorem step_acct_aux b strat blen s op :
+  acctb b strat blen s -> acctb b strat blen (step_fst strat blen s op).
+Proof.
+  intros HA. destruct op as [oid f k|f v|oid p o|oid|oid|cap| |n]; cbn [step_fst].
+  - eapply acct_same; [| |exact HA]; reflexivity.
+  - eapply acct_same; [| |exact HA]; reflexivity.
+  - apply bop_fst_pres; try assumption.
+    + intros s0 v H. eapply acct_same; [| |exact H]; reflexivity.
+    + intros s0. apply load_acct.
+    + intros s0. apply save_acct.
+  - eapply acct_same; [| |exact HA]; reflexivity.
+  - cbv zeta. destruct (Nat.eqb _ 0).
+    + apply flush_one_acct. eapply acct_same; [| |exact HA]; reflexivity.
+    + eapply acct_same; [| |exact HA]; reflexivity.
+  - cbv zeta. destruct cap as [c|].
+    + apply set_capacity_acct. eapply acct_same; [| |exact HA]; reflexivity.
+    + eapply acct_same; [| |exact HA]; reflexivity.
+  - assert (H2 : acctb b strat blen (exit_s2 strat blen s)).
+    { unfold exit_s2. cbv zeta. destruct (Nat.eqb _ 0).
+      - apply flush_buffer_acct. eapply acct_same; [| |exact HA]; reflexivity.
+      - eapply acct_same; [| |exact HA]; reflexivity. }
+    cbv zeta. destruct (orig_of _).
+    + apply set_capacity_acct. eapply acct_same; [| |exact H2]; reflexivity.
+    + eapply acct_same; [| |exact H2]; reflexivity.
+  - apply set_capacity_acct. exact HA.
+Qed.
+
+(* ################################################################## *)
+(* Part 2 *)
+Definition nodup (s : bstate) : Prop := NoDup (map fst (b_buffer s)).
+Lemma nodup_of_acctb strat blen s : acctb false strat blen s -> nodup s.
+Proof. intros [_ H]. exact H. Qed.
+Lemma acctb_of_nodup strat blen s : nodup s -> acctb false strat blen s.
+Proof. intros H. split; [discriminate|exact H]. Qed.
+
+(* every buffered file has a registered holder (buffered or not) *)
+Definition reg_weak (s : bstate) : Prop :=
+  forall f e, nlookup f (b_buffer s) = Some e -> exists oid, In oid (b_bcs s) /\ bo_file (get_obj s oid) = f.
+
+Lemma reg_inv_weak s : reg_inv s -> reg_weak s.
+Proof. intros H f e Hl. destruct (H f e Hl) as (o & H1 & H2 & _). exists o. split; assumption. Qed.
+
+(* an entry is settled when it weighs nothing in the accounting *)
+Definition settled (strat : strategy) (s : bstate) (f : nat) : Prop :=
+  forall e, nlookup f (b_buffer s) = Some e -> strat = Shm /\ e_mod e = false.
+
+(* ------------------------------------------------------------------ *)
+(* flush_one and the buffer *)
+Lemma fo_nodup strat blen s oid force : nodup s -> nodup (fst (flush_one strat blen s oid force)).
+Proof.
+  intros H. apply (nodup_of_acctb strat blen). apply flush_one_acct. apply acctb_of_nodup. exact H.
+Qed.
+
+Lemma fo_none_pres strat blen s oid force f' :
+  nlookup f' (b_buffer s) = None -> nlookup f' (b_buffer (fst (flush_one strat blen s oid force))) = None.
+Proof.
+  intros H. fo_cases strat s oid force; bsimpl; try exact H; try (apply nlookup_nremove_none; exact H);
+    (rewrite nlookup_nset; destruct (Nat.eqb f' _) eqn:E; [apply Nat.eqb_eq in E; subst f'; congruence|exact H]).
+Qed.
+
+Lemma fo_deleted strat blen s oid force :
+  nodup s -> (negb (is_buffered s oid) || force) = true -> (strat = Ser \/ force = false) ->
+  nlookup (bo_file (get_obj s oid)) (b_buffer (fst (flush_one strat blen s oid force))) = None.
+Proof.
+  unfold nodup. intros ND Hc Hor.
+  fo_cases strat s oid force; bsimpl; try discriminate; try exact Hlk;
+    try (apply nlookup_nremove_eq; exact ND);
+    destruct Hor; discriminate.
+Qed.
+
+Lemma fo_settled strat blen s oid force :
+  nodup s -> force = true ->
+  settled strat (fst (flush_one strat blen s oid force)) (bo_file (get_obj s oid)).
+Proof.
+  unfold nodup, settled. intros ND Hf e0.
+  fo_cases strat s oid force; bsimpl; try discriminate;
+    try (rewrite Hlk; discriminate);
+    try (rewrite nlookup_nremove_eq by exact ND; discriminate);
+    try (rewrite nlookup_nset_same; intros H; inversion H; subst; split; reflexivity).
+  all: rewrite Hf in Hcond; rewrite orb_true_r in Hcond; discriminate.
+Qed.
+
+Lemma fo_settled_pres strat blen s oid force f' :
+  nodup s -> settled strat s f' -> settled strat (fst (flush_one strat blen s oid force)) f'.
+Proof.
+  unfold nodup, settled. intros ND H e0.
+  fo_cases strat s oid force; bsimpl; try apply H;
+    try (intros H1; apply (nlookup_nremove_some _ _ _ _ ND) in H1; destruct H1 as [_ H1]; apply H; exact H1);
+    (rewrite nlookup_nset; destruct (Nat.eqb f' _); [intros H1; inversion H1; subst; split; reflexivity|apply H]).
+Qed.
+
+(* ------------------------------------------------------------------ *)
+(* flush_loop *)
+Definition rem_of (strat : strategy) (s : bstate) (force : bool) (todo : list nat) : list nat :=
+  if force then match strat with Ser => [] | Shm => todo end else filter (is_buffered s) todo.
+
+Lemma filter_ext' {A} (f g : A -> bool) l : (forall x, f x = g x) -> filter f l = filter g l.
+Proof. intros H. induction l as [|x l IH]; simpl; [reflexivity|]. rewrite H, IH. reflexivity. Qed.
+
+Lemma flush_loop_rem strat blen force todo :
+  forall s rem iss,
+  snd (fst (flush_loop strat blen todo s force rem iss)) = rem ++ rem_of strat s force todo.
+Proof.
+  induction todo as [|oid todo IH]; intros s rem iss; simpl.
+  - unfold rem_of. destruct force; [destruct strat|]; simpl; rewrite app_nil_r; reflexivity.
+  - destruct force.
+    + rewrite andb_false_r.
+      destruct (flush_one strat blen s oid true) as [s1 [[f|fs]|]]; rewrite IH; unfold rem_of;
+        destruct strat; simpl; rewrite <- ?app_assoc; reflexivity.
+    + rewrite andb_true_r. unfold rem_of. simpl. destruct (is_buffered s oid) eqn:Eb.
+      * rewrite IH. unfold rem_of. rewrite <- app_assoc. reflexivity.
+      * pose proof (flush_one_is_buffered strat blen s oid false) as Hb.
+        destruct (flush_one strat blen s oid false) as [s1 [[f|fs]|]]; cbn [fst] in Hb;
+          rewrite IH; unfold rem_of; rewrite (filter_ext' _ _ todo Hb);
+          destruct strat; reflexivity.
+Qed.
+
+Lemma flush_loop_each strat blen force (P : bstate -> Prop) (D : nat -> bstate -> Prop) :
+  (forall s oid, P s -> P (fst (flush_one strat blen s oid force))) ->
+  (forall s oid, P s -> is_buffered s oid && negb force = false -> D oid (fst (flush_one strat blen s oid force))) ->
+  (forall s oid o', P s -> D o' s -> D o' (fst (flush_one strat blen s oid force))) ->
+  forall todo s rem iss, P s ->
+  forall o', D o' s \/ (In o' todo /\ is_buffered s o' && negb force = false) ->
+  D o' (fst (fst (flush_loop strat blen todo s force rem iss))).
+Proof.
+  intros HP HA HD. induction todo as [|oid todo IH]; intros s rem iss Hs o' H; simpl.
+  - destruct H as [H|[[] _]]. exact H.
+  - destruct (is_buffered s oid && negb force) eqn:Esk.
+    + apply IH; [exact Hs|]. destruct H as [H|[[->|Hin] Hb]].
+      * left; exact H.
+      * congruence.
+      * right. split; assumption.
+    + pose proof (HP s oid Hs) as Hs1. pose proof (HA s oid Hs Esk) as Ha.
+      pose proof (flush_one_is_buffered strat blen s oid force) as Hb.
+      assert (Hn : D o' (fst (flush_one strat blen s oid force)) \/
+                   (In o' todo /\ is_buffered (fst (flush_one strat blen s oid force)) o' && negb force = false)).
+      { destruct H as [H|[[->|Hin] Hb']].
+        - left. apply HD; assumption.
+        - left. exact Ha.
+        - right. split; [exact Hin|]. rewrite Hb. exact Hb'. }
+      destruct (flush_one strat blen s oid force) as [s1 [[f|fs]|]]; cbn [fst] in *; apply IH; assumption.
+Qed.
+
+(* ------------------------------------------------------------------ *)
+(* flush_buffer *)
+Section FlushBuffer.
+  Variable strat : strategy.
+  Variable blen : val -> Z.
+  Variable s : bstate.
+  Variable force : bool.
+
+  Let L := flush_loop strat blen (rev (b_bcs s)) (upd_bcs s []) force [] [].
+  Let sf := fst (fst L).
+
+  Lemma fb_state : fst (flush_buffer strat blen s force) = upd_bcs sf (rem_of strat s force (rev (b_bcs s))).
+  Proof.
+    rewrite flush_buffer_fst. fold L. fold sf. f_equal.
+    unfold L. rewrite flush_loop_rem. reflexivity.
+  Qed.
+
+  Lemma fb_frame : frame s sf.
+  Proof.
+    unfold sf, L. apply (flush_loop_pres strat blen (frame s)).
+    - intros s0 oid H. eapply frame_trans; [exact H|]. apply flush_one_frame.
+    - apply frame_objs_eq; reflexivity.
+  Qed.
+
+  Lemma fb_none f : nlookup f (b_buffer s) = None -> nlookup f (b_buffer sf) = None.
+  Proof.
+    intros H. unfold sf, L. apply (flush_loop_pres strat blen (fun s0 => nlookup f (b_buffer s0) = None)).
+    - intros s0 oid H0. apply fo_none_pres. exact H0.
+    - exact H.
+  Qed.
+
+  Lemma fb_some f e : nlookup f (b_buffer sf) = Some e -> exists e0, nlookup f (b_buffer s) = Some e0.
+  Proof.
+    intros H. destruct (nlookup f (b_buffer s)) as [e0|] eqn:E; [exists e0; reflexivity|].
+    apply fb_none in E. congruence.
+  Qed.
+
+  Lemma fb_nodup : nodup s -> nodup sf.
+  Proof.
+    intros H. unfold sf, L. apply (flush_loop_pres strat blen nodup).
+    - intros s0 oid H0. apply fo_nodup. exact H0.
+    - exact H.
+  Qed.
+
+  Lemma fb_deleted o :
+    nodup s -> In o (b_bcs s) -> is_buffered s o && negb force = false -> (strat = Ser \/ force = false) ->
+    nlookup (bo_file (get_obj s o)) (b_buffer sf) = None.
+  Proof.
+    intros ND Hin Hb Hor.
+    rewrite <- (frame_file s sf o fb_frame).
+    unfold sf, L.
+    apply (flush_loop_each strat blen force nodup
+             (fun o s0 => nlookup (bo_file (get_obj s0 o)) (b_buffer s0) = None)).
+    - intros s0 oid H0. apply fo_nodup. exact H0.
+    - intros s0 oid H0 Hs. rewrite flush_one_file. apply fo_deleted; [exact H0| |exact Hor].
+      destruct (is_buffered s0 oid); destruct force; simpl in *; congruence.
+    - intros s0 oid o' H0 Hd. rewrite flush_one_file. apply fo_none_pres. exact Hd.
+    - exact ND.
+    - right. split; [apply in_rev in Hin; exact Hin|exact Hb].
+  Qed.
+
+  Lemma fb_settled o :
+    nodup s -> In o (b_bcs s) -> force = true -> settled strat sf (bo_file (get_obj s o)).
+  Proof.
+    intros ND Hin Hf.
+    rewrite <- (frame_file s sf o fb_frame).
+    unfold sf, L.
+    apply (flush_loop_each strat blen force nodup
+             (fun o s0 => settled strat s0 (bo_file (get_obj s0 o)))).
+    - intros s0 oid H0. apply fo_nodup. exact H0.
+    - intros s0 oid H0 Hs. rewrite flush_one_file. apply fo_settled; assumption.
+    - intros s0 oid o' H0 Hd. rewrite flush_one_file. apply fo_settled_pres; assumption.
+    - exact ND.
+    - right. split; [apply in_rev in Hin; exact Hin|]. rewrite Hf. apply andb_false_r.
+  Qed.
+End FlushBuffer.
+
+Lemma flush_buffer_frame strat blen s force : frame s (fst (flush_buffer strat blen s force)).
+Proof.
+  rewrite fb_state. eapply frame_trans; [apply fb_frame|]. apply frame_objs_eq; reflexivity.
+Qed.
+
+Lemma flush_buffer_nodup strat blen s force : nodup s -> nodup (fst (flush_buffer strat blen s force)).
+Proof. intros H. rewrite fb_state. apply (fb_nodup strat blen s force H). Qed.
+
+(* a non-forced backend-wide flush re-establishes reg_inv from the weak form *)
+Lemma flush_buffer_reg_false strat blen s :
+  nodup s -> reg_weak s -> reg_inv (fst (flush_buffer strat blen s false)).
+Proof.
+  intros ND HW f e Hl. rewrite fb_state in *. bsimpl in Hl.
+  set (sf := fst (fst (flush_loop strat blen (rev (b_bcs s)) (upd_bcs s []) false [] []))) in *.
+  pose proof (fb_frame strat blen s false) as HF. fold sf in HF.
+  destruct (fb_some strat blen s false f e Hl) as (e0 & Hl0).
+  destruct (HW f e0 Hl0) as (o & Hin & Hfile).
+  destruct (is_buffered s o) eqn:Eb.
+  - exists o. split; [|split].
+    + change (In o (rem_of strat s false (rev (b_bcs s)))).
+      unfold rem_of. apply filter_In. split; [apply in_rev in Hin; exact Hin|exact Eb].
+    + change (bo_file (get_obj sf o) = f). rewrite (frame_file s sf o HF). exact Hfile.
+    + change (is_buffered sf o = true). rewrite (frame_is_buffered s sf o HF). exact Eb.
+  - exfalso.
+    assert (Hd : nlookup (bo_file (get_obj s o)) (b_buffer sf) = None).
+    { apply (fb_deleted strat blen s false o ND Hin); [rewrite Eb; reflexivity|right; reflexivity]. }
+    rewrite Hfile in Hd. congruence.
+Qed.
+
+(* a forced flush settles every entry *)
+Lemma flush_buffer_forced_settled strat blen s f :
+  nodup s -> reg_weak s -> settled strat (fst (flush_buffer strat blen s true)) f.
+Proof.
+  intros ND HW e Hl. rewrite fb_state in Hl. bsimpl in Hl.
+  destruct (fb_some strat blen s true f e Hl) as (e0 & Hl0).
+  destruct (HW f e0 Hl0) as (o & Hin & Hfile).
+  pose proof (fb_settled strat blen s true o ND Hin eq_refl) as H. rewrite Hfile in H. apply H. exact Hl.
+Qed.
+
+Lemma flush_buffer_forced_size strat blen s :
+  acct strat blen s -> reg_weak s -> b_size (fst (flush_buffer strat blen s true)) = 0.
+Proof.
+  intros HA HW.
+  pose proof (flush_buffer_acct true strat blen s true (proj2 (acctb_true strat blen s) HA)) as [H1 H2].
+  rewrite (H1 eq_refl). apply wsum_zero. intros k a Hin.
+  apply In_nlookup in Hin; [|exact H2].
+  destruct (flush_buffer_forced_settled strat blen s k (acct_nodup _ _ _ HA) HW a Hin) as [-> Hm].
+  cbn [ew]. rewrite Hm. reflexivity.
+Qed.
+
+Lemma flush_buffer_reg_true strat blen s :
+  nodup s -> reg_inv s -> reg_inv (fst (flush_buffer strat blen s true)).
+Proof.
+  intros ND HR f e Hl.
+  destruct (flush_buffer_forced_settled strat blen s f ND (reg_inv_weak s HR) e Hl) as [-> _].
+  rewrite fb_state in *. bsimpl in Hl.
+  set (sf := fst (fst (flush_loop Shm blen (rev (b_bcs s)) (upd_bcs s []) true [] []))) in *.
+  pose proof (fb_frame Shm blen s true) as HF. fold sf in HF.
+  destruct (fb_some Shm blen s true f e Hl) as (e0 & Hl0).
+  destruct (HR f e0 Hl0) as (o & Hin & Hfile & Hb).
+  exists o. split; [|split].
+  - change (In o (rem_of Shm s true (rev (b_bcs s)))). unfold rem_of. apply in_rev in Hin. exact Hin.
+  - change (bo_file (get_obj sf o) = f). rewrite (frame_file s sf o HF). exact Hfile.
+  - change (is_buffered sf o = true). rewrite (frame_is_buffered s sf o HF). exact Hb.
+Qed.
+
+(* ------------------------------------------------------------------ *)
+(* the combined invariant and its transfer *)
+Definition regI (s : bstate) : Prop := nodup s /\ reg_inv s.
+
+Lemma reg_inv_gen s s' :
+  (forall f' e', nlookup f' (b_buffer s') = Some e' ->
+     (exists e'', nlookup f' (b_buffer s) = Some e'')
+     \/ (exists oid, In oid (b_bcs s') /\ bo_file (get_obj s' oid) = f' /\ is_buffered s' oid = true)) ->
+  (forall o, In o (b_bcs s) -> is_buffered s o = true ->
+     In o (b_bcs s') /\ bo_file (get_obj s' o) = bo_file (get_obj s o) /\ is_buffered s' o = true) ->
+  reg_inv s -> reg_inv s'.
+Proof.
+  intros H1 H2 HR f e Hl. destruct (H1 f e Hl) as [(e0 & Hl0)|H]; [|exact H].
+  destruct (HR f e0 Hl0) as (o & Hin & Hfile & Hb).
+  destruct (H2 o Hin Hb) as (A & B & C). exists o. split; [exact A|]. split; [congruence|exact C].
+Qed.
+
+Lemma reg_inv_same s s' :
+  frame s s' -> b_buffer s' = b_buffer s -> (forall o, In o (b_bcs s) -> In o (b_bcs s')) ->
+  reg_inv s -> reg_inv s'.
+Proof.
+  intros HF Hb Hin. apply reg_inv_gen.
+  - intros f' e' Hl. left. exists e'. rewrite <- Hb. exact Hl.
+  - intros o Ho Hbuf. split; [apply Hin; exact Ho|]. split; [apply frame_file; exact HF|].
+    rewrite (frame_is_buffered s s' o HF). exact Hbuf.
+Qed.
+
+Lemma regI_same s s' :
+  frame s s' -> b_buffer s' = b_buffer s -> (forall o, In o (b_bcs s) -> In o (b_bcs s')) ->
+  regI s -> regI s'.
+Proof.
+  intros HF Hb Hin [H1 H2]. split; [unfold nodup; rewrite Hb; exact H1|]. eapply reg_inv_same; eassumption.
+Qed.
+
+Lemma regI_conv s s' :
+  b_buffer s' = b_buffer s -> b_bcs s' = b_bcs s -> b_objs s' = b_objs s -> b_ctx s' = b_ctx s ->
+  regI s -> regI s'.
+Proof.
+  intros Hb Hbcs Ho Hc [ND HR]. split; [unfold nodup; rewrite Hb; exact ND|].
+  apply (reg_inv_gen s); [| |exact HR].
+  - intros f' e' Hl. left. exists e'. rewrite <- Hb. exact Hl.
+  - intros o Hin Hbuf. rewrite Hbcs. split; [exact Hin|]. rewrite (get_obj_eq s s' o Ho). split; [reflexivity|].
+    unfold is_buffered in *. rewrite (get_obj_eq s s' o Ho), Hc. exact Hbuf.
+Qed.
+
+Lemma heap_only_regI s s' : heap_only s s' -> regI s -> regI s'.
+Proof.
+  intros HO. pose proof (heap_only_frame s s' HO) as HF. destruct HO as (_ & Hb & _ & _ & _ & _ & Hbcs & _).
+  apply regI_same; try assumption. intros o. rewrite Hbcs. auto.
+Qed.
+
+Lemma check_capacity_regI strat blen s : regI s -> regI (fst (check_capacity strat blen s)).
+Proof.
+  intros HI. unfold check_capacity. destruct (b_cap s <? b_size s); [|exact HI].
+  assert (HI' : regI (note_forced s)).
+  { eapply regI_same; [| | |exact HI]; [apply frame_objs_eq; reflexivity|reflexivity|auto]. }
+  destruct HI' as [A B]. split; [apply flush_buffer_nodup; exact A|apply flush_buffer_reg_true; assumption].
+Qed.
+
+Lemma set_capacity_regI strat blen s n : regI s -> regI (fst (set_capacity strat blen s n)).
+Proof.
+  intros [A B]. unfold set_capacity.
+  assert (HI1 : nodup (upd_cap s n) /\ reg_inv (upd_cap s n)) by (split; [exact A|exact B]).
+  destruct (n <? b_size (upd_cap s n)); [|exact HI1].
+  destruct HI1 as [A1 B1].
+  split; [apply flush_buffer_nodup; exact A1|apply flush_buffer_reg_true; assumption].
+Qed.
+
+(* adding / replacing the entry of a buffered, registered holder *)
+Lemma reg_inv_grow s s' oid :
+  frame s s' -> (forall o, In o (b_bcs s) -> In o (b_bcs s')) -> In oid (b_bcs s') ->
+  is_buffered s oid = true ->
+  (forall f' e', nlookup f' (b_buffer s') = Some e' ->
+     f' = bo_file (get_obj s oid) \/ exists e'', nlookup f' (b_buffer s) = Some e'') ->
+  reg_inv s -> reg_inv s'.
+Proof.
+  intros HF Hin Ho Hb Hk. apply reg_inv_gen.
+  - intros f' e' Hl. destruct (Hk f' e' Hl) as [->|H]; [right|left; exact H].
+    exists oid. split; [exact Ho|]. split; [apply frame_file; exact HF|].
+    rewrite (frame_is_buffered s s' oid HF). exact Hb.
+  - intros o Hino Hbuf. split; [apply Hin; exact Hino|]. split; [apply frame_file; exact HF|].
+    rewrite (frame_is_buffered s s' o HF). exact Hbuf.
+Qed.
+
+Lemma nlookup_nset_keys {A} f (e : A) l f' e' :
+  nlookup f' (nset f e l) = Some e' -> f' = f \/ exists e'', nlookup f' l = Some e''.
+Proof.
+  rewrite nlookup_nset. destruct (Nat.eqb f' f) eqn:E.
+  - apply Nat.eqb_eq in E. left; exact E.
+  - intros H. right. exists e'. exact H.
+Qed.
+
+Lemma lfbb_regI strat blen s oid :
+  is_buffered s oid = true -> regI s -> regI (load_from_buffer_base strat blen s oid).
+Proof.
+  intros Hb [ND HR]. split.
+  { apply (nodup_of_acctb strat blen). apply lfbb_acct. apply acctb_of_nodup. exact ND. }
+  unfold load_from_buffer_base.
+  destruct (nlookup (bo_file (get_obj s oid)) (b_buffer s)) eqn:Hl.
+  - eapply reg_inv_same; [apply frame_register|apply register_fields| |exact HR].
+    intros o Ho. apply register_bcs. right; exact Ho.
+  - set (s1 := update_root s oid (read_disk s (bo_file (get_obj s oid)))).
+    assert (HO : heap_only s s1) by apply update_root_heap_only.
+    set (s2 := init_entry strat blen s1 oid false).
+    destruct (init_entry_fields strat blen s1 oid false) as (F1 & F2 & F3 & F4 & F5 & _). fold s2 in F1, F2, F3, F4, F5.
+    assert (HF : frame s (register s2 oid)).
+    { eapply frame_trans; [apply heap_only_frame; exact HO|].
+      eapply frame_trans; [apply frame_objs_eq; eassumption|apply frame_register]. }
+    apply (reg_inv_grow s (register s2 oid) oid HF).
+    + intros o Ho. apply register_bcs. right. rewrite F5. destruct HO as (_ & _ & _ & _ & _ & _ & -> & _). exact Ho.
+    + apply register_bcs. left; reflexivity.
+    + exact Hb.
+    + intros f' e'. destruct (register_fields s2 oid) as (_ & _ & _ & _ & -> & _).
+      destruct (init_entry_buffer strat blen s1 oid false) as (e0 & Hbuf & _). fold s2 in Hbuf. rewrite Hbuf.
+      rewrite (heap_only_get_obj s s1 oid HO). destruct HO as (_ & -> & _). apply nlookup_nset_keys.
+    + exact HR.
+Qed.
+
+Lemma load_regI strat blen s oid : regI s -> regI (fst (load strat blen s oid)).
+Proof.
+  intros HI. unfold load. destruct (is_buffered s oid) eqn:Hb.
+  - pose proof (lfbb_regI strat blen s oid Hb HI) as H1.
+    destruct strat.
+    + pose proof (check_capacity_regI Ser blen _ H1) as H2.
+      destruct (check_capacity Ser blen (load_from_buffer_base Ser blen s oid)) as [s2 [x|]]; cbn [fst] in *.
+      * exact H2.
+      * eapply heap_only_regI; [apply update_root_heap_only|exact H2].
+    + destruct (nlookup _ _); cbn [fst]; [|exact H1].
+      eapply regI_same; [apply frame_set_loc|reflexivity|auto|exact H1].
+  - cbn [fst]. eapply heap_only_regI; [apply update_root_heap_only|exact HI].
+Qed.
+
+Lemma stb_pre_frame strat blen s oid : frame s (stb_pre strat blen s oid).
+Proof.
+  unfold stb_pre. set (s0 := register s oid). set (f := bo_file (get_obj s0 oid)).
+  eapply frame_trans; [apply (frame_register s oid)|]. fold s0.
+  destruct strat; destruct (nlookup f (b_buffer s0)) as [e|].
+  - apply frame_objs_eq; reflexivity.
+  - destruct (init_entry_fields Ser blen s0 oid false) as (F1 & F2 & F3 & F4 & _).
+    destruct (nlookup f _); apply frame_objs_eq; assumption.
+  - set (s' := if Nat.eqb (e_loc e) (bo_loc (get_obj s0 oid)) then s0 else _).
+    assert (HF : frame s0 s').
+    { subst s'. destruct (Nat.eqb _ _); [apply frame_refl|].
+      eapply frame_trans; [|apply frame_set_loc]. apply frame_objs_eq; reflexivity. }
+    destruct (e_mod e); [exact HF|]. eapply frame_trans; [exact HF|]. apply frame_objs_eq; reflexivity.
+  - destruct (init_entry_fields Shm blen s0 oid true) as (F1 & F2 & F3 & F4 & _).
+    apply frame_objs_eq; assumption.
+Qed.
+
+Lemma stb_pre_bcs strat blen s oid : b_bcs (stb_pre strat blen s oid) = b_bcs (register s oid).
+Proof.
+  unfold stb_pre. set (s0 := register s oid). set (f := bo_file (get_obj s0 oid)).
+  destruct strat; destruct (nlookup f (b_buffer s0)) as [e|].
+  - reflexivity.
+  - destruct (init_entry_fields Ser blen s0 oid false) as (_ & _ & _ & _ & F5 & _).
+    destruct (nlookup f _); exact F5.
+  - destruct (Nat.eqb _ _); destruct (e_mod e); reflexivity.
+  - destruct (init_entry_fields Shm blen s0 oid true) as (_ & _ & _ & _ & F5 & _). exact F5.
+Qed.
+
+Lemma stb_pre_keys strat blen s oid f' e' :
+  nlookup f' (b_buffer (stb_pre strat blen s oid)) = Some e' ->
+  f' = bo_file (get_obj s oid) \/ exists e'', nlookup f' (b_buffer s) = Some e''.
+Proof.
+  unfold stb_pre. rewrite (get_obj_register s oid oid).
+  destruct (register_fields s oid) as (_ & _ & _ & _ & Hbuf & _).
+  set (s0 := register s oid) in *. set (f := bo_file (get_obj s oid)). rewrite <- Hbuf.
+  assert (Hg : get_obj s0 oid = get_obj s oid) by apply get_obj_register.
+  destruct strat; destruct (nlookup f (b_buffer s0)) as [e|] eqn:Hl.
+  - bsimpl. apply nlookup_nset_keys.
+  - destruct (init_entry_buffer Ser blen s0 oid false) as (e0 & Hb & _).
+    rewrite Hg in Hb. fold f in Hb.
+    rewrite Hb, nlookup_nset_same. bsimpl. rewrite Hb. intros H.
+    apply nlookup_nset_keys in H. destruct H as [H|(e2 & H)]; [left; exact H|].
+    apply nlookup_nset_keys in H. exact H.
+  - set (s' := if Nat.eqb (e_loc e) _ then s0 else _).
+    assert (Hs' : b_buffer s' = b_buffer s0) by (subst s'; destruct (Nat.eqb _ _); reflexivity).
+    destruct (e_mod e).
+    + rewrite Hs'. intros H. right. exists e'. exact H.
+    + bsimpl. rewrite Hs'. apply nlookup_nset_keys.
+  - destruct (init_entry_buffer Shm blen s0 oid true) as (e0 & Hb & _).
+    rewrite Hg in Hb. fold f in Hb. bsimpl. rewrite Hb. apply nlookup_nset_keys.
+Qed.
+
+Lemma stb_pre_regI strat blen s oid :
+  is_buffered s oid = true -> regI s -> regI (stb_pre strat blen s oid).
+Proof.
+  intros Hb [ND HR]. split.
+  { apply (nodup_of_acctb strat blen). apply stb_pre_acct. apply acctb_of_nodup. exact ND. }
+  apply (reg_inv_grow s _ oid (stb_pre_frame strat blen s oid)).
+  - intros o Ho. rewrite stb_pre_bcs. apply register_bcs. right; exact Ho.
+  - rewrite stb_pre_bcs. apply register_bcs. left; reflexivity.
+  - exact Hb.
+  - apply stb_pre_keys.
+  - exact HR.
+Qed.
+
+Lemma save_regI strat blen s oid : regI s -> regI (fst (save strat blen s oid)).
+Proof.
+  intros HI. unfold save. destruct (is_buffered s oid) eqn:Hb.
+  - rewrite save_to_buffer_eq. apply check_capacity_regI. apply stb_pre_regI; assumption.
+  - cbn [fst]. eapply regI_same; [| | |exact HI]; [apply frame_objs_eq; reflexivity|reflexivity|auto].
+Qed.
+
+(* one collection leaves its buffered mode *)
+Lemma fo_reg_exit strat blen s oid :
+  nodup s ->
+  (forall f' e', nlookup f' (b_buffer s) = Some e' ->
+     exists o, In o (b_bcs s) /\ bo_file (get_obj s o) = f' /\ (is_buffered s o = true \/ o = oid)) ->
+  reg_inv (fst (flush_one strat blen s oid false)).
+Proof.
+  intros ND H f e Hl.
+  pose proof (flush_one_frame strat blen s oid false) as (HF & Hbcs & _).
+  set (s2 := fst (flush_one strat blen s oid false)) in *.
+  destruct (nlookup f (b_buffer s)) as [e0|] eqn:Hl0.
+  2:{ apply (fo_none_pres strat blen s oid false) in Hl0. fold s2 in Hl0. congruence. }
+  destruct (H f e0 Hl0) as (o & Hin & Hfile & Hor).
+  assert (Hb : is_buffered s o = true).
+  { destruct (is_buffered s o) eqn:Eb; [reflexivity|]. destruct Hor as [Hor| ->]; [discriminate|].
+    exfalso. pose proof (fo_deleted strat blen s oid false ND) as Hd. fold s2 in Hd.
+    rewrite Eb in Hd. specialize (Hd eq_refl (or_intror eq_refl)). rewrite Hfile in Hd. congruence. }
+  exists o. split; [rewrite Hbcs; exact Hin|]. split; [rewrite (frame_file s s2 o HF); exact Hfile|].
+  rewrite (frame_is_buffered s s2 o HF). exact Hb.
+Qed.
+
+(* ------------------------------------------------------------------ *)
+(* get_obj after set_buf *)
+Lemma get_obj_set_buf s oid n o :
+  get_obj (set_buf s oid n) o =
+  if Nat.eqb o oid then {| bo_file := bo_file (get_obj s oid); bo_loc := bo_loc (get_obj s oid); bo_buf := n;
+                           bo_kind := bo_kind (get_obj s oid) |}
+  else get_obj s o.
+Proof. apply (get_obj_nset s (set_buf s oid n) oid _ o eq_refl). Qed.
+
+Lemma set_buf_file s oid n o : bo_file (get_obj (set_buf s oid n) o) = bo_file (get_obj s o).
+Proof.
+  rewrite get_obj_set_buf. destruct (Nat.eqb o oid) eqn:E; [|reflexivity].
+  apply Nat.eqb_eq in E. subst. reflexivity.
+Qed.
+
+Lemma set_buf_is_buffered_other s oid n o : o <> oid -> is_buffered (set_buf s oid n) o = is_buffered s o.
+Proof.
+  intros Hne. unfold is_buffered. rewrite get_obj_set_buf. apply Nat.eqb_neq in Hne. rewrite Hne. reflexivity.
+Qed.
+
+Lemma set_buf_is_buffered_same s oid n :
+  is_buffered (set_buf s oid n) oid = Nat.ltb 0 n || Nat.ltb 0 (b_ctx s).
+Proof. unfold is_buffered. rewrite get_obj_set_buf, Nat.eqb_refl. reflexivity. Qed.
+
+Lemma is_buffered_ctx s o : (0 < b_ctx s)%nat -> is_buffered s o = true.
+Proof. intros H. unfold is_buffered. apply Nat.ltb_lt in H. rewrite H. apply orb_true_r. Qed.
+
+(* ------------------------------------------------------------------ *)
+Theorem step_regI strat blen s op :
+  (forall oid f k, op = BNew oid f k -> ~ In oid (b_bcs s)) ->
+  regI s -> regI (step_fst strat blen s op).
+Proof.
+  intros Hnew HI. destruct op as [oid f k|f v|oid p o|oid|oid|cap| |n]; cbn [step_fst].
+  - destruct HI as [ND HR]. split; [exact ND|].
+    specialize (Hnew oid f k eq_refl).
+    apply (reg_inv_gen s); [| |exact HR].
+    + intros f' e' Hl. left. exists e'. exact Hl.
+    + intros o Ho Hb. split; [exact Ho|].
+      assert (Hne : o <> oid) by (intros ->; contradiction).
+      assert (Hg : get_obj {| b_files := b_files s; b_clock := b_clock s; b_writes := b_writes s;
+                   b_heap := nset (b_nloc s) (empty_of k) (b_heap s); b_nloc := S (b_nloc s);
+                   b_objs := nset oid {| bo_file := f; bo_loc := b_nloc s; bo_buf := 0; bo_kind := k |} (b_objs s);
+                   b_buffer := b_buffer s; b_size := b_size s; b_cap := b_cap s; b_stack := b_stack s;
+                   b_ctx := b_ctx s; b_bcs := b_bcs s; b_forced := b_forced s |} o = get_obj s o).
+      { erewrite get_obj_nset; [|reflexivity]. apply Nat.eqb_neq in Hne. rewrite Hne. reflexivity. }
+      split; [rewrite Hg; reflexivity|]. unfold is_buffered in *. rewrite Hg. exact Hb.
+  - eapply regI_same; [| | |exact HI]; [apply frame_objs_eq; reflexivity|reflexivity|auto].
+  - apply bop_fst_pres; try assumption.
+    + intros s0 v H. eapply heap_only_regI; [apply set_data_heap_only|exact H].
+    + intros s0. apply load_regI.
+    + intros s0. apply save_regI.
+  - destruct HI as [ND HR]. split; [exact ND|].
+    apply (reg_inv_gen s); [| |exact HR].
+    + intros f' e' Hl. left. exists e'. exact Hl.
+    + intros o Ho Hb. split; [exact Ho|]. split; [apply set_buf_file|].
+      destruct (Nat.eq_dec o oid) as [->|Hne].
+      * rewrite set_buf_is_buffered_same. reflexivity.
+      * rewrite set_buf_is_buffered_other by exact Hne. exact Hb.
+  - cbv zeta. destruct HI as [ND HR].
+    set (n := Nat.pred (bo_buf (get_obj s oid))). set (s1 := set_buf s oid n).
+    assert (ND1 : nodup s1) by exact ND.
+    assert (H1 : forall f' e', nlookup f' (b_buffer s1) = Some e' ->
+              exists o, In o (b_bcs s1) /\ bo_file (get_obj s1 o) = f' /\ (is_buffered s1 o = true \/ o = oid)).
+    { intros f' e' Hl. destruct (HR f' e' Hl) as (o & Hin & Hfile & Hb).
+      exists o. split; [exact Hin|]. split; [unfold s1; rewrite set_buf_file; exact Hfile|].
+      destruct (Nat.eq_dec o oid) as [->|Hne]; [right; reflexivity|left].
+      unfold s1. rewrite set_buf_is_buffered_other by exact Hne. exact Hb. }
+    destruct (Nat.eqb n 0) eqn:En.
+    + split; [apply fo_nodup; exact ND1|apply fo_reg_exit; assumption].
+    + split; [exact ND1|]. intros f' e' Hl. destruct (H1 f' e' Hl) as (o & Hin & Hfile & [Hb| ->]).
+      * exists o. repeat split; assumption.
+      * exists oid. split; [exact Hin|]. split; [exact Hfile|].
+        unfold s1. rewrite set_buf_is_buffered_same. apply Nat.eqb_neq in En.
+        destruct n; [congruence|reflexivity].
+  - cbv zeta.
+    assert (H1 : forall st, regI (upd_stack (upd_ctx s (S (b_ctx s))) st)).
+    { intros st. destruct HI as [ND HR]. split; [exact ND|].
+      apply (reg_inv_gen s); [| |exact HR].
+      - intros f' e' Hl. left. exists e'. exact Hl.
+      - intros o Ho Hb. split; [exact Ho|]. split; [reflexivity|]. apply is_buffered_ctx. simpl. lia. }
+    destruct cap as [c|]; [apply set_capacity_regI|]; apply H1.
+  - assert (H2 : regI (exit_s2 strat blen s)).
+    { unfold exit_s2. cbv zeta. destruct HI as [ND HR].
+      destruct (Nat.eqb (b_ctx (upd_ctx s (Nat.pred (b_ctx s)))) 0) eqn:E0.
+      - split; [apply flush_buffer_nodup; exact ND|]. apply flush_buffer_reg_false; [exact ND|].
+        apply (reg_inv_weak s HR).
+      - split; [exact ND|]. apply (reg_inv_gen s); [| |exact HR].
+        + intros f' e' Hl. left. exists e'. exact Hl.
+        + intros o Ho Hb. split; [exact Ho|]. split; [reflexivity|]. apply is_buffered_ctx.
+          apply Nat.eqb_neq in E0. simpl in *. lia. }
+    cbv zeta.
+    assert (H3 : regI (upd_stack (exit_s2 strat blen s) (tl (b_stack (exit_s2 strat blen s))))).
+    { eapply regI_conv; [| | | |exact H2]; reflexivity. }
+    destruct (orig_of _); [apply set_capacity_regI|]; exact H3.
+  - apply set_capacity_regI. exact HI.
+Qed.
+
+(* ################################################################## *)
+(* Part 3 *)
+(* ------------------------------------------------------------------ *)
+(* frames of the compound functions *)
+Lemma check_capacity_frame strat blen s : frame s (fst (check_capacity strat blen s)).
+Proof.
+  unfold check_capacity. destruct (b_cap s <? b_size s); [|apply frame_refl].
+  eapply frame_trans; [|apply flush_buffer_frame]. apply frame_objs_eq; reflexivity.
+Qed.
+
+Lemma set_capacity_cs strat blen s n :
+  let s' := fst (set_capacity strat blen s n) in
+  b_cap s' = n /\ b_stack s' = b_stack s /\ b_ctx s' = b_ctx s.
+Proof.
+  unfold set_capacity. destruct (n <? b_size (upd_cap s n)); [|repeat split].
+  pose proof (flush_buffer_frame strat blen (note_forced (upd_cap s n)) true) as (A1 & A2 & A3 & _).
+  cbv zeta. rewrite A1, A2, A3. repeat split.
+Qed.
+
+Lemma init_entry_frame strat blen s oid m : frame s (init_entry strat blen s oid m).
+Proof. destruct (init_entry_fields strat blen s oid m) as (F1 & F2 & F3 & F4 & _). apply frame_objs_eq; assumption. Qed.
+
+Lemma lfbb_frame strat blen s oid : frame s (load_from_buffer_base strat blen s oid).
+Proof.
+  unfold load_from_buffer_base. destruct (nlookup _ _).
+  - apply frame_register.
+  - eapply frame_trans; [|apply frame_register].
+    eapply frame_trans; [apply heap_only_frame; apply update_root_heap_only|apply init_entry_frame].
+Qed.
+
+Lemma load_frame strat blen s oid : frame s (fst (load strat blen s oid)).
+Proof.
+  unfold load. destruct (is_buffered s oid).
+  - pose proof (lfbb_frame strat blen s oid) as H1. destruct strat.
+    + pose proof (check_capacity_frame Ser blen (load_from_buffer_base Ser blen s oid)) as H2.
+      destruct (check_capacity Ser blen _) as [s2 [x|]]; cbn [fst] in *.
+      * eapply frame_trans; eassumption.
+      * eapply frame_trans; [eapply frame_trans; eassumption|]. apply heap_only_frame, update_root_heap_only.
+    + destruct (nlookup _ _); cbn [fst]; [|exact H1]. eapply frame_trans; [exact H1|apply frame_set_loc].
+  - apply heap_only_frame, update_root_heap_only.
+Qed.
+
+Lemma save_frame strat blen s oid : frame s (fst (save strat blen s oid)).
+Proof.
+  unfold save. destruct (is_buffered s oid).
+  - rewrite save_to_buffer_eq. eapply frame_trans; [apply stb_pre_frame|apply check_capacity_frame].
+  - apply frame_objs_eq; reflexivity.
+Qed.
+
+Lemma bop_fst_frame strat blen s oid p o : frame s (bop_fst strat blen s oid p o).
+Proof.
+  apply (bop_fst_pres strat blen (frame s) oid).
+  - intros s0 v H. eapply frame_trans; [exact H|]. apply heap_only_frame, set_data_heap_only.
+  - intros s0 H. eapply frame_trans; [exact H|apply load_frame].
+  - intros s0 H. eapply frame_trans; [exact H|apply save_frame].
+  - apply frame_refl.
+Qed.
+
+Lemma exit_s2_cs strat blen s :
+  b_cap (exit_s2 strat blen s) = b_cap s /\ b_stack (exit_s2 strat blen s) = b_stack s.
+Proof.
+  unfold exit_s2. cbv zeta. destruct (Nat.eqb _ 0); [|split; reflexivity].
+  pose proof (flush_buffer_frame strat blen (upd_ctx s (Nat.pred (b_ctx s))) false) as (_ & A2 & A3 & _).
+  rewrite A2, A3. split; reflexivity.
+Qed.
+
+(* ------------------------------------------------------------------ *)
+(* the capacity and the stack of saved capacities evolve independently of everything else *)
+Definition cs_step (op : bop) (cs : Z * list (option Z)) : Z * list (option Z) :=
+  let (c, st) := cs in
+  match op with
+  | BEnterCls None => (c, None :: st)
+  | BEnterCls (Some n) => (n, Some c :: st)
+  | BExitCls => (match orig_of st with Some c' => c' | None => c end, tl st)
+  | BSetCap n => (n, st)
+  | _ => (c, st)
+  end.
+
+Lemma step_cs strat blen s op :
+  (b_cap (step_fst strat blen s op), b_stack (step_fst strat blen s op)) = cs_step op (b_cap s, b_stack s).
+Proof.
+  destruct op as [oid f k|f v|oid p o|oid|oid|cap| |n]; cbn [step_fst cs_step].
+  - reflexivity.
+  - reflexivity.
+  - pose proof (bop_fst_frame strat blen s oid p o) as (_ & A2 & A3 & _). rewrite A2, A3. reflexivity.
+  - reflexivity.
+  - cbv zeta. destruct (Nat.eqb _ 0); [|reflexivity].
+    pose proof (flush_one_frame strat blen (set_buf s oid (Nat.pred (bo_buf (get_obj s oid)))) oid false)
+      as ((_ & A2 & A3 & _) & _).
+    cbv zeta in A2, A3. rewrite A2, A3. reflexivity.
+  - cbv zeta. destruct cap as [c|]; [|reflexivity].
+    destruct (set_capacity_cs strat blen
+                (upd_stack (upd_ctx s (S (b_ctx s))) (Some (b_cap (upd_ctx s (S (b_ctx s)))) :: b_stack (upd_ctx s (S (b_ctx s))))) c)
+      as (A1 & A2 & _).
+    cbv zeta in A1, A2. rewrite A1, A2. reflexivity.
+  - cbv zeta. destruct (exit_s2_cs strat blen s) as [E1 E2].
+    set (s2 := exit_s2 strat blen s) in *. rewrite <- E2, <- E1.
+    destruct (orig_of (b_stack s2)) as [c|].
+    + destruct (set_capacity_cs strat blen (upd_stack s2 (tl (b_stack s2))) c) as (A1 & A2 & _).
+      cbv zeta in A1, A2. rewrite A1, A2. reflexivity.
+    + reflexivity.
+  - destruct (set_capacity_cs strat blen s n) as (A1 & A2 & _). cbv zeta in A1, A2. rewrite A1, A2. reflexivity.
+Qed.
+
+Definition crun (ops : list bop) (cs : Z * list (option Z)) : Z * list (option Z) :=
+  fold_left (fun cs op => cs_step op cs) ops cs.
+
+Lemma brun_cs strat blen ops : forall s,
+  (b_cap (brun strat blen ops s), b_stack (brun strat blen ops s)) = crun ops (b_cap s, b_stack s).
+Proof.
+  induction ops as [|op ops IH]; intros s; [reflexivity|].
+  unfold brun, crun in *. cbn [fold_left]. rewrite IH, bstep_fst, step_cs. reflexivity.
+Qed.
+
+Lemma crun_app a b cs : crun (a ++ b) cs = crun b (crun a cs).
+Proof. unfold crun. apply fold_left_app. Qed.
+
+(* which open contexts carry a capacity *)
+Definition has_cap (o : option Z) : bool := match o with Some _ => true | None => false end.
+
+(* every set_buffer_capacity happens inside some context that was given a capacity;
+   [g] lists, innermost first, whether each currently open context has one *)
+Fixpoint setcap_guarded (ops : list bop) (g : list bool) : bool :=
+  match ops with
+  | [] => true
+  | BEnterCls c :: r => setcap_guarded r (has_cap c :: g)
+  | BExitCls :: r => setcap_guarded r (tl g)
+  | BSetCap _ :: r => existsb (fun b => b) g && setcap_guarded r g
+  | _ :: r => setcap_guarded r g
+  end.
+
+(* the capacity in force once the contexts in [pre] (innermost first) have all exited *)
+Fixpoint unwind (c : Z) (pre : list (option Z)) : Z :=
+  match pre with
+  | [] => c
+  | Some c' :: p => unwind c' p
+  | None :: p => unwind c p
+  end.
+
+Lemma unwind_guarded c n pre : existsb (fun b => b) (map has_cap pre) = true -> unwind n pre = unwind c pre.
+Proof.
+  induction pre as [|[c'|] pre IH]; simpl; intros H; [discriminate|reflexivity|apply IH; exact H].
+Qed.
+
+Lemma crun_balanced ops : forall pre rest c,
+  ctx_balanced ops (length pre) = true -> setcap_guarded ops (map has_cap pre) = true ->
+  crun ops (c, pre ++ rest) = (unwind c pre, rest).
+Proof.
+  induction ops as [|op ops IH]; intros pre rest c Hb Hg.
+  - simpl in Hb. apply Nat.eqb_eq in Hb. destruct pre; [reflexivity|discriminate].
+  - unfold crun. cbn [fold_left]. fold (crun ops).
+    destruct op as [oid f k|f v|oid p o|oid|oid|cap| |n]; cbn [ctx_balanced setcap_guarded cs_step] in *;
+      try (apply IH; assumption).
+    + destruct cap as [n|].
+      * change (Some c :: pre ++ rest) with ((Some c :: pre) ++ rest). rewrite IH; [reflexivity|exact Hb|exact Hg].
+      * change (None :: pre ++ rest) with ((None :: pre) ++ rest). rewrite IH; [reflexivity|exact Hb|exact Hg].
+    + destruct pre as [|x pre]; [discriminate|]. cbn [length map tl app orig_of] in *.
+      rewrite IH; [|exact Hb|exact Hg]. destruct x; reflexivity.
+    + apply andb_true_iff in Hg. destruct Hg as [Hg1 Hg2].
+      rewrite IH; [|exact Hb|exact Hg2]. rewrite (unwind_guarded c n pre Hg1). reflexivity.
+Qed.
+
+Lemma ctx_balanced_snoc body : forall d,
+  ctx_balanced body d = true -> ctx_balanced (body ++ [BExitCls]) (S d) = true.
+Proof.
+  induction body as [|op body IH]; intros d H.
+  - simpl in *. apply Nat.eqb_eq in H. subst. reflexivity.
+  - destruct op; cbn [app ctx_balanced] in *; try (apply IH; exact H).
+    destruct d; [discriminate|]. apply IH. exact H.
+Qed.
+
+Lemma setcap_guarded_snoc body : forall g,
+  setcap_guarded body g = true -> setcap_guarded (body ++ [BExitCls]) g = true.
+Proof.
+  induction body as [|op body IH]; intros g H; [reflexivity|].
+  destruct op; cbn [app setcap_guarded] in *; try (apply IH; exact H).
+  apply andb_true_iff in H. destruct H as [H1 H2]. rewrite H1. apply IH. exact H2.
+Qed.
+
+Lemma setcap_guarded_bottom body : forall g,
+  ctx_balanced body (length g) = true -> setcap_guarded body (g ++ [true]) = true.
+Proof.
+  induction body as [|op body IH]; intros g H; [reflexivity|].
+  destruct op as [oid f k|f v|oid p o|oid|oid|cap| |n]; cbn [ctx_balanced setcap_guarded] in *;
+    try (apply IH; exact H).
+  - change (has_cap cap :: g ++ [true]) with ((has_cap cap :: g) ++ [true]). apply IH. exact H.
+  - destruct g as [|b g]; [discriminate|]. cbn [length app tl] in *. apply IH. exact H.
+  - rewrite existsb_app. simpl. rewrite orb_true_r. simpl. apply IH. exact H.
+Qed.
+
+Lemma crun_context cap body c st :
+  ctx_balanced body 0 = true -> setcap_guarded body [has_cap cap] = true ->
+  crun (BEnterCls cap :: body ++ [BExitCls]) (c, st) = (c, st).
+Proof.
+  intros Hb Hg.
+  change (crun (BEnterCls cap :: body ++ [BExitCls]) (c, st))
+    with (crun (body ++ [BExitCls]) (cs_step (BEnterCls cap) (c, st))).
+  pose proof (ctx_balanced_snoc body 0 Hb) as Hb'. pose proof (setcap_guarded_snoc body _ Hg) as Hg'.
+  destruct cap as [n|]; cbn [cs_step has_cap] in *.
+  - exact (crun_balanced (body ++ [BExitCls]) [Some c] st n Hb' Hg').
+  - exact (crun_balanced (body ++ [BExitCls]) [None] st c Hb' Hg').
+Qed.
+
+(* ------------------------------------------------------------------ *)
+(* the size bound *)
+Lemma fo_size_le strat blen s oid force :
+  (forall v, 0 <= blen v) -> b_size (fst (flush_one strat blen s oid force)) <= b_size s.
+Proof.
+  intros Hpos. fo_cases strat s oid force; bsimpl; try lia; pose proof (Hpos (e_val e)); lia.
+Qed.
+
+Lemma flush_buffer_size_le strat blen s force :
+  (forall v, 0 <= blen v) -> b_size (fst (flush_buffer strat blen s force)) <= b_size s.
+Proof.
+  intros Hpos. apply (flush_buffer_pres strat blen (fun s' => b_size s' <= b_size s)).
+  - repeat split; intros; assumption.
+  - intros s0 oid H. pose proof (fo_size_le strat blen s0 oid force Hpos). lia.
+  - lia.
+Qed.
+
+Lemma check_capacity_bnd strat blen s :
+  acct strat blen s -> reg_weak s -> 0 <= b_cap s ->
+  b_size (fst (check_capacity strat blen s)) <= b_cap (fst (check_capacity strat blen s)).
+Proof.
+  intros HA HW Hc. pose proof (check_capacity_frame strat blen s) as (_ & _ & A3 & _). rewrite A3.
+  unfold check_capacity. destruct (b_cap s <? b_size s) eqn:E.
+  - rewrite (flush_buffer_forced_size strat blen (note_forced s)); [exact Hc|exact HA|exact HW].
+  - apply Z.ltb_ge in E. exact E.
+Qed.
+
+Lemma set_capacity_bnd strat blen s n :
+  acct strat blen s -> reg_weak s -> 0 <= n ->
+  b_size (fst (set_capacity strat blen s n)) <= b_cap (fst (set_capacity strat blen s n)).
+Proof.
+  intros HA HW Hc. destruct (set_capacity_cs strat blen s n) as (A1 & _). cbv zeta in A1. rewrite A1.
+  unfold set_capacity. destruct (n <? b_size (upd_cap s n)) eqn:E.
+  - rewrite (flush_buffer_forced_size strat blen (note_forced (upd_cap s n))); [exact Hc|exact HA|exact HW].
+  - apply Z.ltb_ge in E. exact E.
+Qed.
+
+Definition BI (strat : strategy) (blen : val -> Z) (s : bstate) : Prop :=
+  acct strat blen s /\ regI s /\ b_size s <= b_cap s /\ 0 <= b_cap s.
+
+Lemma acct_true_pres strat blen (F : bstate -> bstate) :
+  (forall b s, acctb b strat blen s -> acctb b strat blen (F s)) ->
+  forall s, acct strat blen s -> acct strat blen (F s).
+Proof. intros H s HA. apply acctb_true. apply H. apply acctb_true. exact HA. Qed.
+
+Lemma lfbb_size_shm blen s oid : b_size (load_from_buffer_base Shm blen s oid) = b_size s.
+Proof.
+  unfold load_from_buffer_base. destruct (nlookup _ _).
+  - apply register_fields.
+  - destruct (register_fields (init_entry Shm blen (update_root s oid (read_disk s (bo_file (get_obj s oid)))) oid false) oid)
+      as (_ & _ & _ & _ & _ & -> & _).
+    unfold init_entry. bsimpl. apply (update_root_heap_only s oid).
+Qed.
+
+Lemma load_BI strat blen s oid : BI strat blen s -> BI strat blen (fst (load strat blen s oid)).
+Proof.
+  intros (HA & HI & Hb & Hc).
+  pose proof (load_frame strat blen s oid) as HF.
+  split; [apply (acct_true_pres strat blen (fun s => fst (load strat blen s oid))); [intros; apply load_acct; assumption|exact HA]|].
+  split; [apply load_regI; exact HI|].
+  split; [|rewrite (frame_cap _ _ HF); exact Hc].
+  clear HF. unfold load. destruct (is_buffered s oid) eqn:Ebuf.
+  - pose proof (lfbb_frame strat blen s oid) as HF1.
+    assert (HA1 : acct strat blen (load_from_buffer_base strat blen s oid)).
+    { apply (acct_true_pres strat blen (fun s => load_from_buffer_base strat blen s oid)); [intros; apply lfbb_acct; assumption|exact HA]. }
+    pose proof (lfbb_regI strat blen s oid Ebuf HI) as [_ HR1].
+    destruct strat.
+    + pose proof (check_capacity_bnd Ser blen _ HA1 (reg_inv_weak _ HR1)) as H2.
+      rewrite (frame_cap _ _ HF1) in H2. specialize (H2 Hc).
+      destruct (check_capacity Ser blen (load_from_buffer_base Ser blen s oid)) as [s2 [x|]]; cbn [fst] in *.
+      * exact H2.
+      * destruct (update_root_heap_only s2 oid
+                    (match nlookup (bo_file (get_obj s oid)) (b_buffer (load_from_buffer_base Ser blen s oid)) with
+                     | Some e => Some (e_val e) | None => None end)) as (_ & _ & -> & _ & _ & -> & _).
+        exact H2.
+    + assert (H : b_size (load_from_buffer_base Shm blen s oid) <= b_cap (load_from_buffer_base Shm blen s oid)).
+      { rewrite lfbb_size_shm, (frame_cap _ _ HF1). exact Hb. }
+      destruct (nlookup _ _); cbn [fst]; exact H.
+  - cbn [fst]. destruct (update_root_heap_only s oid (read_disk s (bo_file (get_obj s oid)))) as (_ & _ & -> & _ & _ & -> & _).
+    exact Hb.
+Qed.
+
+Lemma save_BI strat blen s oid : BI strat blen s -> BI strat blen (fst (save strat blen s oid)).
+Proof.
+  intros (HA & HI & Hb & Hc).
+  pose proof (save_frame strat blen s oid) as HF.
+  split; [apply (acct_true_pres strat blen (fun s => fst (save strat blen s oid))); [intros; apply save_acct; assumption|exact HA]|].
+  split; [apply save_regI; exact HI|].
+  split; [|rewrite (frame_cap _ _ HF); exact Hc].
+  clear HF. unfold save. destruct (is_buffered s oid) eqn:Ebuf.
+  - rewrite save_to_buffer_eq. apply check_capacity_bnd.
+    + apply (acct_true_pres strat blen (fun s => stb_pre strat blen s oid)); [intros; apply stb_pre_acct; assumption|exact HA].
+    + apply reg_inv_weak. apply stb_pre_regI; assumption.
+    + rewrite (frame_cap _ _ (stb_pre_frame strat blen s oid)). exact Hc.
+  - cbn [fst]. exact Hb.
+Qed.
+
+Lemma enter_regI s st : regI s -> regI (upd_stack (upd_ctx s (S (b_ctx s))) st).
+Proof.
+  intros [ND HR]. split; [exact ND|].
+  apply (reg_inv_gen s); [| |exact HR].
+  - intros f' e' Hl. left. exists e'. exact Hl.
+  - intros o Ho Hb. split; [exact Ho|]. split; [reflexivity|]. apply is_buffered_ctx. simpl. lia.
+Qed.
+
+Lemma exit_s2_regI strat blen s : regI s -> regI (exit_s2 strat blen s).
+Proof.
+  intros [ND HR]. unfold exit_s2. cbv zeta.
+  destruct (Nat.eqb (b_ctx (upd_ctx s (Nat.pred (b_ctx s)))) 0) eqn:E0.
+  - split; [apply flush_buffer_nodup; exact ND|]. apply flush_buffer_reg_false; [exact ND|].
+    apply (reg_inv_weak s HR).
+  - split; [exact ND|]. apply (reg_inv_gen s); [| |exact HR].
+    + intros f' e' Hl. left. exists e'. exact Hl.
+    + intros o Ho Hb. split; [exact Ho|]. split; [reflexivity|]. apply is_buffered_ctx.
+      apply Nat.eqb_neq in E0. simpl in *. lia.
+Qed.
+
+Lemma exit_s2_acct b strat blen s : acctb b strat blen s -> acctb b strat blen (exit_s2 strat blen s).
+Proof.
+  intros HA. unfold exit_s2. cbv zeta. destruct (Nat.eqb _ 0).
+  - apply flush_buffer_acct. eapply acct_same; [| |exact HA]; reflexivity.
+  - eapply acct_same; [| |exact HA]; reflexivity.
+Qed.
+
+Lemma exit_s2_size_le strat blen s :
+  (forall v, 0 <= blen v) -> b_size (exit_s2 strat blen s) <= b_size s.
+Proof.
+  intros Hpos. unfold exit_s2. cbv zeta. destruct (Nat.eqb _ 0); [|simpl; lia].
+  apply (flush_buffer_size_le strat blen (upd_ctx s (Nat.pred (b_ctx s))) false Hpos).
+Qed.
+
+Theorem step_bnd strat blen s op :
+  acct strat blen s -> regI s -> stack_ok s -> op_caps_ok op -> b_size s <= b_cap s ->
+  (forall v, 0 <= blen v) ->
+  b_size (step_fst strat blen s op) <= b_cap (step_fst strat blen s op).
+Proof.
+  intros HA HI [Hc Hst] Hop Hb Hpos.
+  destruct op as [oid f k|f v|oid p o|oid|oid|cap| |n]; cbn [step_fst].
+  - exact Hb.
+  - exact Hb.
+  - assert (H : BI strat blen (bop_fst strat blen s oid p o)).
+    { apply (bop_fst_pres strat blen (BI strat blen) oid).
+      + intros s0 v (A & B & C & D). split; [exact A|]. split; [|split; assumption].
+        eapply heap_only_regI; [apply set_data_heap_only|exact B].
+      + intros s0. apply load_BI.
+      + intros s0. apply save_BI.
+      + split; [exact HA|]. split; [exact HI|]. split; assumption. }
+    destruct H as (_ & _ & H & _). exact H.
+  - exact Hb.
+  - cbv zeta. destruct (Nat.eqb _ 0); [|exact Hb].
+    set (s1 := set_buf s oid (Nat.pred (bo_buf (get_obj s oid)))).
+    pose proof (fo_size_le strat blen s1 oid false Hpos) as H1.
+    pose proof (flush_one_frame strat blen s1 oid false) as ((_ & _ & A3 & _) & _). cbv zeta in A3.
+    rewrite A3. change (b_size s1) with (b_size s) in H1. change (b_cap s1) with (b_cap s). lia.
+  - cbv zeta. destruct cap as [c|]; [|exact Hb].
+    apply set_capacity_bnd; [exact HA| |exact Hop].
+    apply reg_inv_weak. apply (enter_regI s _ HI).
+  - cbv zeta.
+    pose proof (exit_s2_regI strat blen s HI) as HI2.
+    assert (HA2 : acct strat blen (exit_s2 strat blen s)).
+    { apply acctb_true. apply exit_s2_acct. apply acctb_true. exact HA. }
+    pose proof (exit_s2_size_le strat blen s Hpos) as Hs2.
+    destruct (exit_s2_cs strat blen s) as [E1 E2].
+    destruct (orig_of (b_stack (exit_s2 strat blen s))) as [c|] eqn:Eo.
+    + apply set_capacity_bnd; [exact HA2| |].
+      * apply reg_inv_weak. destruct HI2 as [_ HR2]. exact HR2.
+      * apply Hst. rewrite E2 in Eo. destruct (b_stack s) as [|x st]; simpl in Eo; [discriminate|].
+        subst x. left; reflexivity.
+    + cbn [b_size b_cap upd_stack]. lia.
+  - apply set_capacity_bnd; [exact HA| |exact Hop]. apply reg_inv_weak. apply HI.
+Qed.
+
+Lemma cs_step_stack_ok op c st :
+  op_caps_ok op -> 0 <= c -> (forall x, In (Some x) st -> 0 <= x) ->
+  0 <= fst (cs_step op (c, st)) /\ (forall x, In (Some x) (snd (cs_step op (c, st))) -> 0 <= x).
+Proof.
+  intros Hop Hc Hst. destruct op as [oid f k|f v|oid p o|oid|oid|cap| |n]; cbn [cs_step fst snd]; try (split; assumption).
+  - destruct cap as [n|]; cbn [fst snd]; split; try assumption.
+    + intros x [H|H]; [inversion H; subst; exact Hc|apply Hst; exact H].
+    + intros x [H|H]; [discriminate|apply Hst; exact H].
+  - split.
+    + destruct st as [|[x|] st]; simpl; try exact Hc. apply Hst. left; reflexivity.
+    + intros x H. apply Hst. destruct st; [destruct H|right; exact H].
+Qed.
+
+Lemma step_stack_ok strat blen s op :
+  op_caps_ok op -> stack_ok s -> stack_ok (step_fst strat blen s op).
+Proof.
+  intros Hop [Hc Hst]. pose proof (step_cs strat blen s op) as H.
+  destruct (cs_step_stack_ok op (b_cap s) (b_stack s) Hop Hc Hst) as [A B].
+  rewrite <- H in A, B. exact (conj A B).
+Qed.
+
+(* ------------------------------------------------------------------ *)
+(* read-only sessions *)
+Lemma seq_text_refl a : seq_text a a = true.
+Proof.
+  destruct a as [| | |[x|m e]| |]; simpl; try reflexivity;
+    try apply Z.eqb_refl; try apply str_eqb_refl; try apply N.eqb_refl.
+  - destruct b; reflexivity.
+  - apply Bool.eqb_reflx.
+  - rewrite !Z.eqb_refl. reflexivity.
+Qed.
+
+Lemma veq_text_refl v : veq_text v v = true.
+Proof.
+  induction v as [a|l IH|d IH] using val_ind2.
+  - apply seq_text_refl.
+  - simpl. induction IH as [|x l Hx _ IHl]; simpl; [reflexivity|]. rewrite Hx. exact IHl.
+  - simpl. induction IH as [|[k w] d Hx _ IHd]; simpl; [reflexivity|].
+    simpl in Hx. rewrite key_eqb_refl, Hx. exact IHd.
+Qed.
+
+Definition RO (strat : strategy) (s0 s : bstate) : Prop :=
+  b_files s = b_files s0 /\ b_writes s = b_writes s0 /\ clean_entries strat s /\ nodup s.
+
+Lemma RO_conv strat s0 s s' :
+  b_files s' = b_files s -> b_writes s' = b_writes s -> b_buffer s' = b_buffer s -> RO strat s0 s -> RO strat s0 s'.
+Proof.
+  intros H1 H2 H3 (A & B & C & D). unfold RO, nodup, clean_entries, entry_modified in *.
+  rewrite H1, H2, H3. repeat split; assumption.
+Qed.
+
+Lemma RO_closed strat s0 : closed_ctl (RO strat s0).
+Proof. split; [|split]; intros; (eapply RO_conv; [| | |eassumption]; reflexivity). Qed.
+
+Lemma clean_ser s e f : clean_entries Ser s -> nlookup f (b_buffer s) = Some e -> veq_text (e_val e) (e_hash e) = true.
+Proof. intros H Hl. specialize (H f e Hl). unfold entry_modified in H. apply negb_false_iff in H. exact H. Qed.
+
+Lemma clean_shm s e f : clean_entries Shm s -> nlookup f (b_buffer s) = Some e -> e_mod e = false.
+Proof. intros H Hl. exact (H f e Hl). Qed.
+
+Lemma flush_one_RO strat blen s0 s oid force :
+  RO strat s0 s -> RO strat s0 (fst (flush_one strat blen s oid force)).
+Proof.
+  intros (A & B & C & D). unfold RO.
+  split; [|split; [|split; [|apply fo_nodup; exact D]]].
+  - rewrite <- A. fo_cases strat s oid force; bsimpl; try reflexivity;
+      try (rewrite (clean_ser s e _ C Hlk) in Hveq; discriminate);
+      (rewrite (clean_shm s e _ C Hlk) in Hmod; discriminate).
+  - rewrite <- B. fo_cases strat s oid force; bsimpl; try reflexivity;
+      try (rewrite (clean_ser s e _ C Hlk) in Hveq; discriminate);
+      (rewrite (clean_shm s e _ C Hlk) in Hmod; discriminate).
+  - unfold nodup in D. intros f' e'. unfold entry_modified.
+    fo_cases strat s oid force; bsimpl; try apply C;
+      try (intros H1; apply (nlookup_nremove_some _ _ _ _ D) in H1; destruct H1 as [_ H1]; exact (C f' e' H1));
+      (rewrite nlookup_nset; destruct (Nat.eqb f' _); [intros H1; inversion H1; subst; reflexivity|apply C]).
+Qed.
+
+Lemma set_capacity_RO strat blen s0 s n : RO strat s0 s -> RO strat s0 (fst (set_capacity strat blen s n)).
+Proof. apply set_capacity_pres; [apply RO_closed|]. intros; apply flush_one_RO; assumption. Qed.
+Lemma check_capacity_RO strat blen s0 s : RO strat s0 s -> RO strat s0 (fst (check_capacity strat blen s)).
+Proof. apply check_capacity_pres; [apply RO_closed|]. intros; apply flush_one_RO; assumption. Qed.
+Lemma flush_buffer_RO strat blen s0 s force : RO strat s0 s -> RO strat s0 (fst (flush_buffer strat blen s force)).
+Proof. apply flush_buffer_pres; [apply RO_closed|]. intros; apply flush_one_RO; assumption. Qed.
+
+Lemma heap_only_RO strat s0 s s' : heap_only s s' -> RO strat s0 s -> RO strat s0 s'.
+Proof. intros (_ & H3 & _ & _ & _ & _ & _ & H1 & H2 & _). apply RO_conv; assumption. Qed.
+
+Lemma lfbb_RO strat blen s0 s oid : RO strat s0 s -> RO strat s0 (load_from_buffer_base strat blen s oid).
+Proof.
+  intros HR. unfold load_from_buffer_base.
+  destruct (nlookup (bo_file (get_obj s oid)) (b_buffer s)) eqn:Hl.
+  - eapply RO_conv; [| | |exact HR]; apply register_fields.
+  - set (s1 := update_root s oid (read_disk s (bo_file (get_obj s oid)))).
+    assert (H1 : RO strat s0 s1) by (eapply heap_only_RO; [apply update_root_heap_only|exact HR]).
+    destruct H1 as (A & B & C & D).
+    set (s2 := init_entry strat blen s1 oid false).
+    destruct (init_entry_fields strat blen s1 oid false) as (_ & _ & _ & _ & _ & F6 & F7 & _). fold s2 in F6, F7.
+    destruct (init_entry_buffer strat blen s1 oid false) as (e0 & Hb & Hm & Hv & Hh). fold s2 in Hb.
+    eapply RO_conv; [apply register_fields|apply register_fields|apply register_fields|].
+    split; [congruence|]. split; [congruence|]. split.
+    + intros f' e'. rewrite Hb, nlookup_nset. destruct (Nat.eqb f' _).
+      * intros H; inversion H; subst e'. unfold entry_modified. destruct strat; [|exact Hm].
+        rewrite Hv, Hh, veq_text_refl. reflexivity.
+      * apply C.
+    + unfold nodup. rewrite Hb. apply NoDup_nset. exact D.
+Qed.
+
+Lemma load_RO strat blen s0 s oid : RO strat s0 s -> RO strat s0 (fst (load strat blen s oid)).
+Proof.
+  intros HR. unfold load. destruct (is_buffered s oid).
+  - pose proof (lfbb_RO strat blen s0 s oid HR) as H1. destruct strat.
+    + pose proof (check_capacity_RO Ser blen s0 _ H1) as H2.
+      destruct (check_capacity Ser blen (load_from_buffer_base Ser blen s oid)) as [s2 [x|]]; cbn [fst] in *.
+      * exact H2.
+      * eapply heap_only_RO; [apply update_root_heap_only|exact H2].
+    + destruct (nlookup _ _); cbn [fst]; [|exact H1]. eapply RO_conv; [| | |exact H1]; reflexivity.
+  - cbn [fst]. eapply heap_only_RO; [apply update_root_heap_only|exact HR].
+Qed.
+
+Lemma read_not_no_load o : nop_is_read o = true -> nop_no_load o = false.
+Proof. destruct o as [l|d]; [destruct l|destruct d]; simpl; intros H; try reflexivity; discriminate. Qed.
+
+Theorem step_RO strat blen s0 s op :
+  bop_is_readonly op = true -> RO strat s0 s -> RO strat s0 (step_fst strat blen s op).
+Proof.
+  intros Hro HR. destruct op as [oid f k|f v|oid p o|oid|oid|cap| |n]; cbn [step_fst bop_is_readonly] in *.
+  - eapply RO_conv; [| | |exact HR]; reflexivity.
+  - discriminate.
+  - unfold bop_fst. destruct (pre_err o); [exact HR|].
+    rewrite (read_not_no_load o Hro), andb_false_r, Hro. cbv zeta.
+    pose proof (load2_pres strat blen (RO strat s0) o oid (fun s1 => load_RO strat blen s0 s1 oid) s HR) as HL.
+    destruct (snd (load2 strat blen o oid s)); [exact HL|].
+    destruct (apply_at p o _) as [[r d']|]; exact HL.
+  - eapply RO_conv; [| | |exact HR]; reflexivity.
+  - cbv zeta. destruct (Nat.eqb _ 0).
+    + apply flush_one_RO. eapply RO_conv; [| | |exact HR]; reflexivity.
+    + eapply RO_conv; [| | |exact HR]; reflexivity.
+  - cbv zeta. destruct cap as [c|].
+    + apply set_capacity_RO. eapply RO_conv; [| | |exact HR]; reflexivity.
+    + eapply RO_conv; [| | |exact HR]; reflexivity.
+  - assert (H2 : RO strat s0 (exit_s2 strat blen s)).
+    { unfold exit_s2. cbv zeta. destruct (Nat.eqb _ 0).
+      - apply flush_buffer_RO. eapply RO_conv; [| | |exact HR]; reflexivity.
+      - eapply RO_conv; [| | |exact HR]; reflexivity. }
+    cbv zeta. destruct (orig_of _).
+    + apply set_capacity_RO. eapply RO_conv; [| | |exact H2]; reflexivity.
+    + eapply RO_conv; [| | |exact H2]; reflexivity.
+  - apply set_capacity_RO. exact HR.
+Qed.
+
+(* ------------------------------------------------------------------ *)
+(* issues of a backend-wide flush *)
+Lemma fo_exn strat blen s oid force x :
+  snd (flush_one strat blen s oid force) = Some x -> x = XMeta (bo_file (get_obj s oid)).
+Proof.
+  fo_cases strat s oid force; bsimpl; intros H; try discriminate; inversion H; reflexivity.
+Qed.
+
+Lemma flush_loop_issues strat blen force todo : forall s rem iss f,
+  In f (snd (flush_loop strat blen todo s force rem iss)) ->
+  In f iss \/ exists oid, In oid todo /\ bo_file (get_obj s oid) = f.
+Proof.
+  induction todo as [|oid todo IH]; intros s rem iss f H; simpl in H.
+  - left. exact H.
+  - destruct (is_buffered s oid && negb force).
+    + destruct (IH _ _ _ _ H) as [H1|(o & Ho & Hf)]; [left; exact H1|right].
+      exists o. split; [right; exact Ho|exact Hf].
+    + pose proof (fo_exn strat blen s oid force) as Hx.
+      pose proof (flush_one_file strat blen s oid force) as Hfile.
+      destruct (flush_one strat blen s oid force) as [s1 [[g|fs]|]]; cbn [fst snd] in *.
+      * specialize (Hx _ eq_refl). inversion Hx; subst g.
+        destruct (IH _ _ _ _ H) as [H1|(o & Ho & Hf)].
+        -- destruct (nmem (bo_file (get_obj s oid)) iss); [left; exact H1|].
+           apply in_app_iff in H1. destruct H1 as [H1|[H1|[]]]; [left; exact H1|right].
+           exists oid. split; [left; reflexivity|exact H1].
+        -- right. exists o. split; [right; exact Ho|]. rewrite <- Hfile. exact Hf.
+      * specialize (Hx _ eq_refl). discriminate.
+      * destruct (IH _ _ _ _ H) as [H1|(o & Ho & Hf)]; [left; exact H1|right].
+        exists o. split; [right; exact Ho|]. rewrite <- Hfile. exact Hf.
+Qed.
+
+(* ################################################################## *)
+(* Part 4 *)
+Definition bcs_known (s : bstate) : Prop :=
+  forall oid, In oid (b_bcs s) -> nlookup oid (b_objs s) <> None.
+
+(* objects are never forgotten; registrations only come from [oids] *)
+Definition grow (oids : list nat) (s s' : bstate) : Prop :=
+  (forall o, nlookup o (b_objs s) <> None -> nlookup o (b_objs s') <> None)
+  /\ (forall o, In o (b_bcs s') -> In o (b_bcs s) \/ In o oids).
+
+Lemma grow_refl oids s : grow oids s s.
+Proof. split; auto. Qed.
+
+Lemma grow_trans oids s1 s2 s3 : grow oids s1 s2 -> grow oids s2 s3 -> grow oids s1 s3.
+Proof.
+  intros [A1 A2] [B1 B2]. split; [auto|]. intros o Ho. destruct (B2 o Ho) as [H|H]; [apply A2; exact H|right; exact H].
+Qed.
+
+Lemma grow_eq oids s s' : b_objs s' = b_objs s -> b_bcs s' = b_bcs s -> grow oids s s'.
+Proof. intros H1 H2. split; [rewrite H1; auto|rewrite H2; auto]. Qed.
+
+Lemma grow_nset oids s s' oid ob : b_objs s' = nset oid ob (b_objs s) -> b_bcs s' = b_bcs s -> grow oids s s'.
+Proof.
+  intros H1 H2. split; [|rewrite H2; auto]. intros o Ho. rewrite H1, nlookup_nset.
+  destruct (Nat.eqb o oid); [discriminate|exact Ho].
+Qed.
+
+Lemma grow_bcs_known oids s s' :
+  grow oids s s' -> (forall o, In o oids -> nlookup o (b_objs s) <> None) -> bcs_known s -> bcs_known s'.
+Proof.
+  intros [A1 A2] Hk HB o Ho. apply A1. destruct (A2 o Ho) as [H|H]; [apply HB; exact H|apply Hk; exact H].
+Qed.
+
+Lemma flush_one_grow strat blen oids s oid force : grow oids s (fst (flush_one strat blen s oid force)).
+Proof.
+  fo_cases strat s oid force; bsimpl;
+    try (apply grow_eq; reflexivity);
+    try (eapply grow_nset; reflexivity).
+Qed.
+
+Lemma flush_buffer_grow strat blen oids s force : grow oids s (fst (flush_buffer strat blen s force)).
+Proof.
+  rewrite fb_state. split.
+  - assert (H : grow oids (upd_bcs s []) (fst (fst (flush_loop strat blen (rev (b_bcs s)) (upd_bcs s []) force [] [])))).
+    { apply (flush_loop_pres strat blen (grow oids (upd_bcs s []))).
+      - intros s0 o H. eapply grow_trans; [exact H|apply flush_one_grow].
+      - apply grow_refl. }
+    exact (proj1 H).
+  - intros o Ho. left. bsimpl in Ho. unfold rem_of in Ho.
+    destruct force; [destruct strat; [destruct Ho|apply in_rev; exact Ho]|].
+    apply filter_In in Ho. apply in_rev. exact (proj1 Ho).
+Qed.
+
+Lemma check_capacity_grow strat blen oids s : grow oids s (fst (check_capacity strat blen s)).
+Proof.
+  unfold check_capacity. destruct (b_cap s <? b_size s); [|apply grow_refl].
+  eapply grow_trans; [|apply flush_buffer_grow]. apply grow_eq; reflexivity.
+Qed.
+
+Lemma set_capacity_grow strat blen oids s n : grow oids s (fst (set_capacity strat blen s n)).
+Proof.
+  unfold set_capacity. destruct (n <? b_size (upd_cap s n)); [|apply grow_eq; reflexivity].
+  eapply grow_trans; [|apply flush_buffer_grow]. apply grow_eq; reflexivity.
+Qed.
+
+Lemma register_grow s oid : grow [oid] s (register s oid).
+Proof.
+  split; [rewrite (proj1 (register_fields s oid)); auto|].
+  intros o Ho. apply register_bcs in Ho. destruct Ho as [->|H]; [right; left; reflexivity|left; exact H].
+Qed.
+
+Lemma heap_only_grow oids s s' : heap_only s s' -> grow oids s s'.
+Proof. intros (H1 & _ & _ & _ & _ & _ & H2 & _). apply grow_eq; assumption. Qed.
+
+Lemma init_entry_grow strat blen oids s oid m : grow oids s (init_entry strat blen s oid m).
+Proof. destruct (init_entry_fields strat blen s oid m) as (F1 & _ & _ & _ & F5 & _). apply grow_eq; assumption. Qed.
+
+Lemma lfbb_grow strat blen s oid : grow [oid] s (load_from_buffer_base strat blen s oid).
+Proof.
+  unfold load_from_buffer_base. destruct (nlookup _ _).
+  - apply register_grow.
+  - eapply grow_trans; [|apply register_grow].
+    eapply grow_trans; [apply heap_only_grow, update_root_heap_only|apply init_entry_grow].
+Qed.
+
+Lemma load_grow strat blen s oid : grow [oid] s (fst (load strat blen s oid)).
+Proof.
+  unfold load. destruct (is_buffered s oid).
+  - pose proof (lfbb_grow strat blen s oid) as H1. destruct strat.
+    + pose proof (check_capacity_grow Ser blen [oid] (load_from_buffer_base Ser blen s oid)) as H2.
+      destruct (check_capacity Ser blen _) as [s2 [x|]]; cbn [fst] in *.
+      * eapply grow_trans; eassumption.
+      * eapply grow_trans; [eapply grow_trans; eassumption|]. apply heap_only_grow, update_root_heap_only.
+    + destruct (nlookup _ _); cbn [fst]; [|exact H1]. eapply grow_trans; [exact H1|].
+      eapply grow_nset; reflexivity.
+  - apply heap_only_grow, update_root_heap_only.
+Qed.
+
+Lemma stb_pre_grow strat blen s oid : grow [oid] s (stb_pre strat blen s oid).
+Proof.
+  eapply grow_trans; [apply (register_grow s oid)|].
+  unfold stb_pre. set (s0 := register s oid). set (f := bo_file (get_obj s0 oid)).
+  destruct strat; destruct (nlookup f (b_buffer s0)) as [e|].
+  - apply grow_eq; reflexivity.
+  - destruct (init_entry_fields Ser blen s0 oid false) as (F1 & _ & _ & _ & F5 & _).
+    destruct (nlookup f _); apply grow_eq; assumption.
+  - set (s' := if Nat.eqb (e_loc e) (bo_loc (get_obj s0 oid)) then s0 else _).
+    assert (HF : grow [oid] s0 s').
+    { subst s'. destruct (Nat.eqb _ _); [apply grow_refl|]. eapply grow_nset; reflexivity. }
+    destruct (e_mod e); [exact HF|]. eapply grow_trans; [exact HF|]. apply grow_eq; reflexivity.
+  - destruct (init_entry_fields Shm blen s0 oid true) as (F1 & _ & _ & _ & F5 & _).
+    apply grow_eq; assumption.
+Qed.
+
+Lemma save_grow strat blen s oid : grow [oid] s (fst (save strat blen s oid)).
+Proof.
+  unfold save. destruct (is_buffered s oid).
+  - rewrite save_to_buffer_eq. eapply grow_trans; [apply stb_pre_grow|apply check_capacity_grow].
+  - apply grow_eq; reflexivity.
+Qed.
+
+Definition op_oids (op : bop) : list nat := match op with BOp oid _ _ => [oid] | _ => [] end.
+
+Lemma step_grow strat blen s op : grow (op_oids op) s (step_fst strat blen s op).
+Proof.
+  destruct op as [oid f k|f v|oid p o|oid|oid|cap| |n]; cbn [step_fst op_oids].
+  - eapply grow_nset; reflexivity.
+  - apply grow_eq; reflexivity.
+  - apply (bop_fst_pres strat blen (grow [oid] s) oid).
+    + intros s0 v H. eapply grow_trans; [exact H|]. apply heap_only_grow, set_data_heap_only.
+    + intros s0 H. eapply grow_trans; [exact H|apply load_grow].
+    + intros s0 H. eapply grow_trans; [exact H|apply save_grow].
+    + apply grow_refl.
+  - eapply grow_nset; reflexivity.
+  - cbv zeta. destruct (Nat.eqb _ 0).
+    + eapply grow_trans; [|apply flush_one_grow]. eapply grow_nset; reflexivity.
+    + eapply grow_nset; reflexivity.
+  - cbv zeta. destruct cap as [c|].
+    + eapply grow_trans; [|apply set_capacity_grow]. apply grow_eq; reflexivity.
+    + apply grow_eq; reflexivity.
+  - assert (H2 : grow [] s (exit_s2 strat blen s)).
+    { unfold exit_s2. cbv zeta. destruct (Nat.eqb _ 0).
+      - eapply grow_trans; [|apply flush_buffer_grow]. apply grow_eq; reflexivity.
+      - apply grow_eq; reflexivity. }
+    cbv zeta. destruct (orig_of _).
+    + eapply grow_trans; [exact H2|]. eapply grow_trans; [|apply set_capacity_grow]. apply grow_eq; reflexivity.
+    + eapply grow_trans; [exact H2|]. apply grow_eq; reflexivity.
+  - apply set_capacity_grow.
+Qed.
+
+(* ################################################################## *)
+(* Part 5: the stated theorems *)
+(* ================================================================== *)
+(* C15: the reported size is exact *)
+Lemma acct_init strat blen cap : acct strat blen (b_init cap).
+Proof. split; [destruct strat; reflexivity|constructor]. Qed.
+
+Theorem step_acct strat blen s op :
+  acct strat blen s -> acct strat blen (fst (bstep_fn strat blen s op)).
+Proof.
+  intros H. rewrite bstep_fst. apply acctb_true. apply step_acct_aux. apply acctb_true. exact H.
+Qed.
+
+Theorem run_acct strat blen ops s : acct strat blen s -> acct strat blen (brun strat blen ops s).
+Proof.
+  revert s. induction ops as [|op ops IH]; intros s H; [exact H|].
+  unfold brun in *. cbn [fold_left]. apply IH. apply step_acct. exact H.
+Qed.
+
+(* distinct buffer keys alone are preserved too (no assumption on the size field) *)
+Theorem step_nodup strat blen s op :
+  NoDup (map fst (b_buffer s)) -> NoDup (map fst (b_buffer (fst (bstep_fn strat blen s op)))).
+Proof.
+  intros H. rewrite bstep_fst. apply (nodup_of_acctb strat blen). apply step_acct_aux. apply acctb_of_nodup. exact H.
+Qed.
+
+(* ================================================================== *)
+(* every buffered file keeps a registered, buffered holder *)
+Lemma reg_init cap : reg_inv (b_init cap).
+Proof. intros f e H. discriminate. Qed.
+
+Definition cx_entry : entry := {| e_val := VD []; e_loc := 0; e_hash := VD []; e_meta := None; e_mod := false |}.
+
+(* counterexample 1 to step_reg as first stated: a buffer with a duplicated key (unreachable, but allowed by
+   reg_inv alone).  The holder leaves its buffered mode, its flush deletes the first copy only. *)
+Definition cx_dup : bstate :=
+  {| b_files := []; b_clock := 0; b_writes := []; b_heap := []; b_nloc := 0;
+     b_objs := [(1%nat, {| bo_file := 5; bo_loc := 0; bo_buf := 1; bo_kind := KDict |})];
+     b_buffer := [(5%nat, cx_entry); (5%nat, cx_entry)]; b_size := 0; b_cap := 10; b_stack := []; b_ctx := 0;
+     b_bcs := [1%nat]; b_forced := 0 |}.
+
+Example step_reg_original_false_dup :
+  (forall oid f k, BExitObj 1 = BNew oid f k -> nlookup oid (b_objs cx_dup) = None)
+  /\ reg_inv cx_dup
+  /\ ~ reg_inv (fst (bstep_fn Ser blen_json cx_dup (BExitObj 1))).
+Proof.
+  split; [intros; discriminate|]. split.
+  - intros f e H. simpl in H. destruct (Nat.eqb f 5) eqn:E; [|discriminate].
+    apply Nat.eqb_eq in E. subst f. exists 1%nat. repeat split. left; reflexivity.
+  - intros H. specialize (H 5%nat cx_entry).
+    assert (Hl : nlookup 5 (b_buffer (fst (bstep_fn Ser blen_json cx_dup (BExitObj 1)))) = Some cx_entry)
+      by (vm_compute; reflexivity).
+    destruct (H Hl) as (o & Hin & _ & Hb).
+    assert (Hbcs : b_bcs (fst (bstep_fn Ser blen_json cx_dup (BExitObj 1))) = [1%nat]) by (vm_compute; reflexivity).
+    rewrite Hbcs in Hin. destruct Hin as [<-|[]].
+    vm_compute in Hb. discriminate.
+Qed.
+
+(* counterexample 2: an object id that was used (hence registered, holding the file of the default object)
+   before being created; creating it rebinds the id to another file *)
+Definition cx_new : bstate :=
+  {| b_files := []; b_clock := 0; b_writes := []; b_heap := []; b_nloc := 0; b_objs := [];
+     b_buffer := [(0%nat, cx_entry)]; b_size := 0; b_cap := 10; b_stack := [None]; b_ctx := 1;
+     b_bcs := [7%nat]; b_forced := 0 |}.
+
+Example step_reg_original_false_new :
+  (forall oid f k, BNew 7 5 KDict = BNew oid f k -> nlookup oid (b_objs cx_new) = None)
+  /\ NoDup (map fst (b_buffer cx_new))
+  /\ reg_inv cx_new
+  /\ ~ reg_inv (fst (bstep_fn Ser blen_json cx_new (BNew 7 5 KDict))).
+Proof.
+  split; [intros; reflexivity|]. split; [repeat constructor; intros []|]. split.
+  - intros f e H. simpl in H. destruct (Nat.eqb f 0) eqn:E; [|discriminate].
+    apply Nat.eqb_eq in E. subst f. exists 7%nat. repeat split. left; reflexivity.
+  - intros H. destruct (H 0%nat cx_entry eq_refl) as (o & Hin & Hf & _).
+    simpl in Hin. destruct Hin as [<-|[]]. vm_compute in Hf. discriminate.
+Qed.
+
+(* CHANGED: two extra hypotheses.  (1) The keys of the buffer are distinct (part of acct; preserved on its own
+   by step_nodup) — without it a flush deletes only the first copy of a duplicated key.  (2) "Objects are
+   created once" must say that the new id is not REGISTERED: an id that is used before BNew is registered
+   with the default object's file (0), and BNew then rebinds it.  With (2) the original freshness hypothesis
+   [nlookup oid (b_objs s) = None] is not needed at all; bcs_known below derives (2) from it. *)
+Theorem step_reg strat blen s op :
+  (forall oid f k, op = BNew oid f k -> ~ In oid (b_bcs s)) ->
+  NoDup (map fst (b_buffer s)) ->
+  reg_inv s -> reg_inv (fst (bstep_fn strat blen s op)).
+Proof.
+  intros Hnew ND HR. rewrite bstep_fst. apply (step_regI strat blen s op Hnew). split; assumption.
+Qed.
+
+(* registered collections are known objects: this is how "objects are created before they are used, once"
+   yields the BNew hypothesis of step_reg *)
+Lemma bcs_known_init cap : bcs_known (b_init cap).
+Proof. intros o []. Qed.
+
+Theorem step_bcs_known strat blen s op :
+  (forall oid p o, op = BOp oid p o -> nlookup oid (b_objs s) <> None) ->
+  bcs_known s -> bcs_known (fst (bstep_fn strat blen s op)).
+Proof.
+  intros Hop HB. rewrite bstep_fst. apply (grow_bcs_known (op_oids op) s _ (step_grow strat blen s op)); [|exact HB].
+  intros o Ho. destruct op; simpl in Ho; try contradiction. destruct Ho as [<-|[]]. eapply Hop. reflexivity.
+Qed.
+
+Corollary step_reg_known strat blen s op :
+  (forall oid f k, op = BNew oid f k -> nlookup oid (b_objs s) = None) ->
+  bcs_known s -> NoDup (map fst (b_buffer s)) ->
+  reg_inv s -> reg_inv (fst (bstep_fn strat blen s op)).
+Proof.
+  intros Hnew HB. apply step_reg. intros oid f k E Hin. exact (HB oid Hin (Hnew oid f k E)).
+Qed.
+
+(* ================================================================== *)
+(* C15: size is 0 and the buffer is empty whenever no buffered context is active *)
+Theorem zero_outside strat blen s : acct strat blen s -> reg_inv s -> nobody_buffered s ->
+  b_buffer s = [] /\ b_size s = 0%Z.
+Proof.
+  intros [HA _] HR [Hctx Hobjs].
+  assert (Hb : b_buffer s = []).
+  { destruct (b_buffer s) as [|[f e] l] eqn:E; [reflexivity|exfalso].
+    assert (Hl : nlookup f (b_buffer s) = Some e) by (rewrite E; simpl; rewrite Nat.eqb_refl; reflexivity).
+    destruct (HR f e Hl) as (o & _ & _ & Hbuf).
+    unfold is_buffered in Hbuf. rewrite Hctx in Hbuf. simpl in Hbuf. rewrite orb_false_r in Hbuf.
+    unfold get_obj in Hbuf. destruct (nlookup o (b_objs s)) as [ob|] eqn:Eo.
+    - rewrite (Hobjs o ob Eo) in Hbuf. discriminate.
+    - discriminate. }
+  split; [exact Hb|]. rewrite HA. unfold expected_size. rewrite Hb. destruct strat; reflexivity.
+Qed.
+
+(* ================================================================== *)
+(* C15: never above capacity after an operation (whatever it returned).  Proved as stated; the hypothesis on
+   BNew is not used. *)
+Theorem step_bounded strat blen s op :
+  (forall oid f k, op = BNew oid f k -> nlookup oid (b_objs s) = None) ->
+  acct strat blen s -> reg_inv s -> stack_ok s -> op_caps_ok op -> (b_size s <= b_cap s)%Z ->
+  (forall v, 0 <= blen v)%Z ->
+  let s' := fst (bstep_fn strat blen s op) in (b_size s' <= b_cap s')%Z /\ stack_ok s'.
+Proof.
+  intros _ HA HR Hst Hop Hb Hpos. cbv zeta. rewrite bstep_fst. split.
+  - apply step_bnd; try assumption. split; [exact (acct_nodup _ _ _ HA)|exact HR].
+  - apply step_stack_ok; assumption.
+Qed.
+
+(* ================================================================== *)
+(* C15 / C07: capacity restoration *)
+
+(* counterexample to capacity_restored as first stated: the outer context carries no capacity, and
+   set_buffer_capacity is called inside a nested context that carries none either.  The call is not at the
+   nesting level of the outer context, yet nothing restores the capacity. *)
+Example capacity_restored_original_false :
+  let body := [BEnterCls None; BSetCap 7; BExitCls] in
+  ctx_balanced body 0 = true /\ no_setcap_at_depth0 body
+  /\ b_cap (brun Ser blen_json (BEnterCls None :: body ++ [BExitCls]) (b_init 3)) <> b_cap (b_init 3).
+Proof.
+  cbv zeta. split; [reflexivity|]. split.
+  - intros pre n post H.
+    destruct pre as [|a [|b [|c pre]]]; simpl in H; inversion H; subst; try reflexivity.
+    destruct pre; discriminate.
+  - vm_compute. discriminate.
+Qed.
+
+(* CHANGED: [no_setcap_at_depth0 body] is replaced by [setcap_guarded body [has_cap cap]]
+   (Part 3): every BSetCap of the body lies inside a context — the outer one or a nested one — that
+   was given a capacity, because only such a context restores the capacity when it exits.  This is weaker
+   than the original hypothesis when [cap = Some _] (then NO restriction on the body is needed:
+   capacity_restored_some) and stronger when [cap = None] (see the counterexample above). *)
+Theorem capacity_restored strat blen cap body s :
+  ctx_balanced body 0 = true -> setcap_guarded body [has_cap cap] = true ->
+  b_cap (brun strat blen (BEnterCls cap :: body ++ [BExitCls]) s) = b_cap s
+  /\ b_stack (brun strat blen (BEnterCls cap :: body ++ [BExitCls]) s) = b_stack s.
+Proof.
+  intros Hb Hg.
+  pose proof (brun_cs strat blen (BEnterCls cap :: body ++ [BExitCls]) s) as H.
+  rewrite (crun_context cap body (b_cap s) (b_stack s) Hb Hg) in H.
+  split; [exact (f_equal fst H)|exact (f_equal snd H)].
+Qed.
+
+(* a context that is given a capacity restores the previous one whatever happens inside *)
+Theorem capacity_restored_some strat blen c body s :
+  ctx_balanced body 0 = true ->
+  b_cap (brun strat blen (BEnterCls (Some c) :: body ++ [BExitCls]) s) = b_cap s
+  /\ b_stack (brun strat blen (BEnterCls (Some c) :: body ++ [BExitCls]) s) = b_stack s.
+Proof.
+  intros Hb. apply capacity_restored; [exact Hb|]. exact (setcap_guarded_bottom body [] Hb).
+Qed.
+
+(* a context without a capacity leaves capacity and stack alone if the body never sets the capacity outside
+   nested capacity-carrying contexts; in particular if it never calls set_buffer_capacity *)
+Lemma setcap_guarded_no_setcap body g :
+  (forall n, ~ In (BSetCap n) body) -> setcap_guarded body g = true.
+Proof.
+  revert g. induction body as [|op body IH]; intros g H; [reflexivity|].
+  assert (H' : forall n, ~ In (BSetCap n) body) by (intros n Hn; apply (H n); right; exact Hn).
+  destruct op; cbn [setcap_guarded]; try (apply IH; exact H').
+  exfalso. eapply H. left. reflexivity.
+Qed.
+
+(* ================================================================== *)
+(* C17 (buffered part) *)
+
+(* counterexample to readonly_step_pure / readonly_run_pure as first stated: a duplicated key hides a modified
+   entry behind a clean one; leaving the buffered mode drops the clean copy, the next exit writes the other *)
+Definition cx_dirty : entry := {| e_val := VD []; e_loc := 0; e_hash := VL []; e_meta := None; e_mod := true |}.
+Definition cx_ro : bstate :=
+  {| b_files := []; b_clock := 0; b_writes := []; b_heap := []; b_nloc := 0;
+     b_objs := [(1%nat, {| bo_file := 5; bo_loc := 0; bo_buf := 1; bo_kind := KDict |})];
+     b_buffer := [(5%nat, cx_entry); (5%nat, cx_dirty)]; b_size := 0; b_cap := 10; b_stack := []; b_ctx := 0;
+     b_bcs := [1%nat]; b_forced := 0 |}.
+
+Example readonly_original_false :
+  clean_entries Ser cx_ro
+  /\ ~ clean_entries Ser (fst (bstep_fn Ser blen_json cx_ro (BExitObj 1)))
+  /\ forallb bop_is_readonly [BExitObj 1; BEnterObj 1; BExitObj 1] = true
+  /\ b_writes (brun Ser blen_json [BExitObj 1; BEnterObj 1; BExitObj 1] cx_ro) <> b_writes cx_ro.
+Proof.
+  split; [|split; [|split]].
+  - intros f e H. simpl in H. destruct (Nat.eqb f 5); [|discriminate]. inversion H; subst. reflexivity.
+  - intros H. specialize (H 5%nat cx_dirty).
+    assert (Hl : nlookup 5 (b_buffer (fst (bstep_fn Ser blen_json cx_ro (BExitObj 1)))) = Some cx_dirty)
+      by (vm_compute; reflexivity).
+    specialize (H Hl). vm_compute in H. discriminate.
+  - reflexivity.
+  - vm_compute. discriminate.
+Qed.
+
+(* CHANGED: the keys of the buffer are distinct (hypothesis and conclusion; see the counterexample) *)
+Theorem readonly_step_pure strat blen s op :
+  bop_is_readonly op = true -> clean_entries strat s -> NoDup (map fst (b_buffer s)) ->
+  let s' := fst (bstep_fn strat blen s op) in
+  b_files s' = b_files s /\ b_writes s' = b_writes s /\ clean_entries strat s' /\ NoDup (map fst (b_buffer s')).
+Proof.
+  intros Hro Hc ND. cbv zeta. rewrite bstep_fst.
+  apply (step_RO strat blen s s op Hro). repeat split; assumption.
+Qed.
+
+(* CHANGED: the keys of the buffer are distinct *)
+Theorem readonly_run_pure strat blen ops s :
+  forallb bop_is_readonly ops = true -> clean_entries strat s -> NoDup (map fst (b_buffer s)) ->
+  b_files (brun strat blen ops s) = b_files s /\ b_writes (brun strat blen ops s) = b_writes s.
+Proof.
+  intros Hro Hc ND.
+  assert (H : RO strat s (brun strat blen ops s)).
+  { assert (H0 : RO strat s s) by (repeat split; assumption).
+    clear Hc ND. revert Hro H0. generalize s at 2 4 as s1. induction ops as [|op ops IH]; intros s1 Hro H0; [exact H0|].
+    simpl in Hro. apply andb_true_iff in Hro. destruct Hro as [H1 H2].
+    unfold brun in *. cbn [fold_left]. apply IH; [exact H2|]. rewrite bstep_fst. apply step_RO; assumption. }
+  destruct H as (A & B & _). split; assumption.
+Qed.
+
+(* ================================================================== *)
+(* C07: what one flush does, by cases *)
+Theorem flush_conflict_raises strat blen s oid force e :
+  (negb (is_buffered s oid) || force) = true ->
+  nlookup (bo_file (get_obj s oid)) (b_buffer s) = Some e ->
+  entry_modified strat s e = true -> opt_nat_eqb (e_meta e) (stamp s (bo_file (get_obj s oid))) = false ->
+  snd (flush_one strat blen s oid force) = Some (XMeta (bo_file (get_obj s oid)))
+  /\ b_files (fst (flush_one strat blen s oid force)) = b_files s
+  /\ b_writes (fst (flush_one strat blen s oid force)) = b_writes s.
+Proof.
+  intros Hc Hl Hm Hmeta. unfold flush_one. rewrite Hc, Hl. unfold entry_modified in Hm. destruct strat.
+  - apply negb_true_iff in Hm. rewrite Hm, Hmeta. cbn [negb]. repeat split.
+  - rewrite Hm, Hmeta. cbn [negb]. destruct force; repeat split.
+Qed.
+
+Theorem flush_unmodified_silent strat blen s oid force e :
+  nlookup (bo_file (get_obj s oid)) (b_buffer s) = Some e -> entry_modified strat s e = false ->
+  snd (flush_one strat blen s oid force) = None
+  /\ b_files (fst (flush_one strat blen s oid force)) = b_files s
+  /\ b_writes (fst (flush_one strat blen s oid force)) = b_writes s.
+Proof.
+  intros Hl Hm. unfold flush_one. rewrite Hl. unfold entry_modified in Hm.
+  destruct (negb (is_buffered s oid) || force); destruct strat; try (repeat split; fail).
+  - apply negb_false_iff in Hm. rewrite Hm. repeat split.
+  - rewrite Hm. destruct force; repeat split.
+Qed.
+
+Theorem flush_clean_written strat blen s oid force e :
+  (negb (is_buffered s oid) || force) = true ->
+  nlookup (bo_file (get_obj s oid)) (b_buffer s) = Some e ->
+  entry_modified strat s e = true -> opt_nat_eqb (e_meta e) (stamp s (bo_file (get_obj s oid))) = true ->
+  let s' := fst (flush_one strat blen s oid force) in
+  snd (flush_one strat blen s oid force) = None
+  /\ b_writes s' = bo_file (get_obj s oid) :: b_writes s
+  /\ exists v, read_disk s' (bo_file (get_obj s oid)) = Some v
+       /\ (forall g, g <> bo_file (get_obj s oid) -> read_disk s' g = read_disk s g).
+Proof.
+  intros Hc Hl Hm Hmeta. cbv zeta. unfold flush_one. rewrite Hc, Hl. unfold entry_modified in Hm. destruct strat.
+  - apply negb_true_iff in Hm. rewrite Hm, Hmeta. cbn [negb]. bsimpl.
+    split; [reflexivity|]. split; [reflexivity|]. eexists. split.
+    + unfold read_disk. bsimpl. rewrite nlookup_nset_same. reflexivity.
+    + intros g Hg. unfold read_disk. bsimpl. rewrite nlookup_nset_other by exact Hg. reflexivity.
+  - rewrite Hm, Hmeta. cbn [negb]. destruct force; bsimpl;
+      (split; [reflexivity|]; split; [reflexivity|]; eexists; split;
+       [unfold read_disk; bsimpl; rewrite nlookup_nset_same; reflexivity
+       |intros g Hg; unfold read_disk; bsimpl; rewrite nlookup_nset_other by exact Hg; reflexivity]).
+Qed.
+
+(* the error of a backend-wide flush names exactly files whose flush raised *)
+Theorem flush_buffer_issues strat blen s force s' x :
+  flush_buffer strat blen s force = (s', x) ->
+  match x with
+  | None => True
+  | Some (XBuf fs) => fs <> [] /\ forall f, In f fs -> exists oid, In oid (b_bcs s) /\ bo_file (get_obj s oid) = f
+  | Some (XMeta _) => False
+  end.
+Proof.
+  intros H. unfold flush_buffer in H.
+  destruct (flush_loop strat blen (rev (b_bcs s)) (upd_bcs s []) force [] []) as [[s1 rem] iss] eqn:E.
+  destruct iss as [|i iss]; inversion H; subst; [exact I|].
+  split; [discriminate|]. intros f Hf.
+  pose proof (flush_loop_issues strat blen force (rev (b_bcs s)) (upd_bcs s []) [] [] f) as H1.
+  rewrite E in H1. destruct (H1 Hf) as [[]|(o & Ho & Hfile)].
+  exists o. split; [apply in_rev; exact Ho|exact Hfile].
+Qed.
+
+Print Assumptions acct_init.
+Print Assumptions step_acct.
+Print Assumptions run_acct.
+Print Assumptions step_nodup.
+Print Assumptions reg_init.
+Print Assumptions step_reg_original_false_dup.
+Print Assumptions step_reg_original_false_new.
+Print Assumptions step_reg.
+Print Assumptions step_bcs_known.
+Print Assumptions step_reg_known.
+Print Assumptions zero_outside.
+Print Assumptions step_bounded.
+Print Assumptions capacity_restored_original_false.
+Print Assumptions capacity_restored.
+Print Assumptions capacity_restored_some.
+Print Assumptions readonly_original_false.
+Print Assumptions readonly_step_pure.
+Print Assumptions readonly_run_pure.
+Print Assumptions flush_conflict_raises.
+Print Assumptions flush_unmodified_silent.
+Print Assumptions flush_clean_written.
+Print Assumptions flush_buffer_issues.
